@@ -9,6 +9,8 @@ set_option linter.unusedVariables false
 namespace Ft
 namespace Codec
 
+variable {hu : Nat → Bool} {dflt : Int}
+
 /-! ### rank-wise append -/
 
 theorem zipApp_nil_left {α : Type} (b : List (List α)) : zipApp [] b = [] := by simp [zipApp]
@@ -232,72 +234,87 @@ theorem flatMap_dense {π β : Type} (g : Int → π → List β) (dflt : π) (h
         · subst h; constructor <;> omega
         · have := hr x h; constructor <;> omega
 
-/-- the elements a format lays out carry the whole content of the fiber -/
-theorem flatMap_elemsOf {π β : Type} (g : Int → π → List β) (f : Fmt) (dim : Nat) (dflt : π)
-    (isE : π → Bool) (hd : ∀ c, g c dflt = []) (hE : ∀ c x, isE x = true → g c x = [])
-    (a : Fib Int π) (hs : Sorted a) (hin : ∀ e ∈ a, 0 ≤ e.1 ∧ e.1 < (dim : Nat)) :
-    (elemsOf f dim dflt isE a).flatMap (fun e => g e.1 e.2) = a.flatMap (fun e => g e.1 e.2) := by
+/-- walking the positions `0 … m-1` with look-up -/
+def cd_denseOf {π : Type} (m : Nat) (dflt : π) (a : Fib Int π) : Fib Int π :=
+  (irange m).map (fun i => (i, (lookup a i).getD dflt))
+
+theorem cd_elemsOf_cases {π : Type} (f : Fmt) (u : Bool) (dim tdim : Nat) (dflt : π) (isE : π → Bool)
+    (a : Fib Int π) (htd : tdim ≤ dim) :
+    (∃ m, m ≤ dim ∧ tdim ≤ m ∧ (f = .U → m = dim) ∧ elemsOf f u dim tdim dflt isE a = cd_denseOf m dflt a) ∨
+    (f ≠ .U ∧ elemsOf f u dim tdim dflt isE a = a.filter (fun e => !isE e.2)) := by
   cases f with
-  | U =>
-    simp only [elemsOf, irange_eq]
-    apply flatMap_dense g dflt hd dim 0 a hs
-    intro e he; have := hin e he; constructor <;> omega
+  | U => left; exact ⟨dim, Nat.le_refl _, htd, fun _ => rfl, rfl⟩
   | C =>
-    simp only [elemsOf]
-    apply flatMap_filter_skip
-    intro x _ hx; exact hE x.1 x.2 (by simpa using hx)
+    cases u with
+    | true => left; exact ⟨tdim, htd, Nat.le_refl _, fun h => Fmt.noConfusion h, rfl⟩
+    | false => right; exact ⟨by decide, rfl⟩
   | B =>
-    simp only [elemsOf]
+    cases u with
+    | true => left; exact ⟨tdim, htd, Nat.le_refl _, fun h => Fmt.noConfusion h, rfl⟩
+    | false => right; exact ⟨by decide, rfl⟩
+
+/-- the elements a format lays out carry the whole content of the fiber -/
+theorem flatMap_elemsOf {π β : Type} (g : Int → π → List β) (f : Fmt) (u : Bool) (dim tdim : Nat) (dflt : π)
+    (isE : π → Bool) (hd : ∀ c, g c dflt = []) (hE : ∀ c x, isE x = true → g c x = [])
+    (a : Fib Int π) (hs : Sorted a) (htd : tdim ≤ dim) (hin : ∀ e ∈ a, 0 ≤ e.1 ∧ e.1 < (tdim : Nat)) :
+    (elemsOf f u dim tdim dflt isE a).flatMap (fun e => g e.1 e.2) = a.flatMap (fun e => g e.1 e.2) := by
+  rcases cd_elemsOf_cases f u dim tdim dflt isE a htd with ⟨m, hm, htm, _, he⟩ | ⟨_, he⟩
+  · rw [he]
+    simp only [cd_denseOf, irange_eq]
+    apply flatMap_dense g dflt hd m 0 a hs
+    intro e he; have := hin e he; constructor <;> omega
+  · rw [he]
     apply flatMap_filter_skip
     intro x _ hx; exact hE x.1 x.2 (by simpa using hx)
 
 /-- the coordinates of the laid-out elements are strictly increasing and inside the extent -/
-theorem elemsOf_coords_inc {π : Type} (f : Fmt) (dim : Nat) (dflt : π) (isE : π → Bool)
-    (a : Fib Int π) (hs : Sorted a) : Inc ((elemsOf f dim dflt isE a).map (·.1)) := by
-  cases f with
-  | U =>
-    have hm : (elemsOf Fmt.U dim dflt isE a).map (·.1) = (List.range dim).map Int.ofNat := by
-      simp [elemsOf, irange, List.map_map, Function.comp_def]
+theorem elemsOf_coords_inc {π : Type} (f : Fmt) (u : Bool) (dim tdim : Nat) (dflt : π) (isE : π → Bool)
+    (a : Fib Int π) (hs : Sorted a) : Inc ((elemsOf f u dim tdim dflt isE a).map (·.1)) := by
+  have hdense : ∀ m, Inc ((cd_denseOf m dflt a).map (·.1)) := by
+    intro m
+    have hm : (cd_denseOf m dflt a).map (·.1) = (List.range m).map Int.ofNat := by
+      simp [cd_denseOf, irange, List.map_map, Function.comp_def]
     rw [hm, Inc, List.pairwise_map]
-    have : (List.range dim).Pairwise (· < ·) := List.pairwise_lt_range
+    have : (List.range m).Pairwise (· < ·) := List.pairwise_lt_range
     exact this.imp (by intro a b h; simp; omega)
-  | C =>
-    simp only [elemsOf, Inc]
+  have hfilt : Inc ((a.filter (fun e => !isE e.2)).map (·.1)) := by
+    simp only [Inc]
     rw [List.pairwise_map]
     exact (List.Pairwise.filter _ hs)
-  | B =>
-    simp only [elemsOf, Inc]
-    rw [List.pairwise_map]
-    exact (List.Pairwise.filter _ hs)
+  cases f with
+  | U => exact hdense dim
+  | C => cases u with
+    | true => exact hdense tdim
+    | false => exact hfilt
+  | B => cases u with
+    | true => exact hdense tdim
+    | false => exact hfilt
 
-theorem elemsOf_coords_in {π : Type} (f : Fmt) (dim : Nat) (dflt : π) (isE : π → Bool)
-    (a : Fib Int π) (hin : ∀ e ∈ a, 0 ≤ e.1 ∧ e.1 < (dim : Nat)) :
-    ∀ c ∈ (elemsOf f dim dflt isE a).map (·.1), (0 : Int) ≤ c ∧ c < ((dim : Nat) : Int) := by
+theorem elemsOf_coords_in {π : Type} (f : Fmt) (u : Bool) (dim tdim : Nat) (dflt : π) (isE : π → Bool)
+    (a : Fib Int π) (htd : tdim ≤ dim) (hin : ∀ e ∈ a, 0 ≤ e.1 ∧ e.1 < (tdim : Nat)) :
+    ∀ c ∈ (elemsOf f u dim tdim dflt isE a).map (·.1), (0 : Int) ≤ c ∧ c < ((dim : Nat) : Int) := by
   intro c hc
   obtain ⟨e, he, rfl⟩ := List.mem_map.1 hc
-  cases f with
-  | U =>
-    simp only [elemsOf, irange_eq] at he
+  rcases cd_elemsOf_cases f u dim tdim dflt isE a htd with ⟨m, hm, _, _, hel⟩ | ⟨_, hel⟩
+  · rw [hel] at he
+    simp only [cd_denseOf, irange_eq] at he
     obtain ⟨i, hi, rfl⟩ := List.mem_map.1 he
     have := mem_posFrom.1 hi
     constructor <;> simp <;> omega
-  | C => exact hin e (List.mem_filter.1 he).1
-  | B => exact hin e (List.mem_filter.1 he).1
+  · rw [hel] at he
+    have := hin e (List.mem_filter.1 he).1
+    constructor <;> omega
 
-theorem elemsOf_U_coords {π : Type} (dim : Nat) (dflt : π) (isE : π → Bool) (a : Fib Int π) :
-    (elemsOf .U dim dflt isE a).map (·.1) = irange dim := by
+theorem elemsOf_U_coords {π : Type} (u : Bool) (dim tdim : Nat) (dflt : π) (isE : π → Bool) (a : Fib Int π) :
+    (elemsOf .U u dim tdim dflt isE a).map (·.1) = irange dim := by
   simp [elemsOf, List.map_map, Function.comp_def]
 
-theorem length_elemsOf_U {π : Type} (dim : Nat) (dflt : π) (isE : π → Bool) (a : Fib Int π) :
-    (elemsOf .U dim dflt isE a).length = dim := by
-  simp [elemsOf, irange]
-
 /-- every payload of a laid-out element is a stored payload or the default -/
-theorem elemsOf_payload {π : Type} (f : Fmt) (dim : Nat) (dflt : π) (isE : π → Bool) (a : Fib Int π)
-    (e : Int × π) (he : e ∈ elemsOf f dim dflt isE a) : e.2 = dflt ∨ ∃ e' ∈ a, e'.2 = e.2 := by
-  cases f with
-  | U =>
-    simp only [elemsOf] at he
+theorem elemsOf_payload {π : Type} (f : Fmt) (u : Bool) (dim tdim : Nat) (dflt : π) (isE : π → Bool) (a : Fib Int π)
+    (e : Int × π) (he : e ∈ elemsOf f u dim tdim dflt isE a) : e.2 = dflt ∨ ∃ e' ∈ a, e'.2 = e.2 := by
+  have hdense : ∀ m, e ∈ cd_denseOf m dflt a → e.2 = dflt ∨ ∃ e' ∈ a, e'.2 = e.2 := by
+    intro m he
+    simp only [cd_denseOf] at he
     obtain ⟨i, _, rfl⟩ := List.mem_map.1 he
     cases h : lookup a i with
     | none => left; simp [h]
@@ -310,8 +327,36 @@ theorem elemsOf_payload {π : Type} (f : Fmt) (dim : Nat) (dflt : π) (isE : π 
       | some x =>
         simp [hf] at h
         exact ⟨x, List.mem_of_find?_eq_some hf, h⟩
-  | C => right; exact ⟨e, (List.mem_filter.1 he).1, rfl⟩
-  | B => right; exact ⟨e, (List.mem_filter.1 he).1, rfl⟩
+  cases f with
+  | U => exact hdense dim he
+  | C => cases u with
+    | true => exact hdense tdim he
+    | false => right; exact ⟨e, (List.mem_filter.1 he).1, rfl⟩
+  | B => cases u with
+    | true => exact hdense tdim he
+    | false => right; exact ⟨e, (List.mem_filter.1 he).1, rfl⟩
+
+/-- what the proofs need of the extents and coordinates of one rank -/
+theorem cd_level_facts (d : Nat) (f : Fmt) (fs' : List Fmt) (tsh : List Nat) (ish : Option (List Nat))
+    (a : List (Int × Tree Int Int d))
+    (hin : inShape (d + 1) tsh a = true) (hdims : dimsOK (f :: fs') tsh ish = true) :
+    tsh.headD 0 ≤ dimOf tsh ish ∧ dimsOK fs' tsh.tail (ishNext f ish) = true ∧
+    (∀ e ∈ a, 0 ≤ e.1 ∧ e.1 < ((tsh.headD 0 : Nat) : Int)) ∧
+    (∀ e ∈ a, inShape d tsh.tail e.2 = true) := by
+  have h1 : (decide (tsh.headD 0 ≤ dimOf tsh ish) && dimsOK fs' tsh.tail (ishNext f ish)) = true := hdims
+  rw [Bool.and_eq_true, decide_eq_true_eq] at h1
+  have h2 : (a.all fun e => decide (0 ≤ e.1) && decide (e.1 < ((tsh.headD 0 : Nat) : Int)) &&
+      inShape d tsh.tail e.2) = true := hin
+  rw [List.all_eq_true] at h2
+  refine ⟨h1.1, h1.2, ?_, ?_⟩
+  · intro e he
+    have := h2 e he
+    simp only [Bool.and_eq_true, decide_eq_true_eq] at this
+    exact ⟨this.1.1, this.1.2⟩
+  · intro e he
+    have := h2 e he
+    simp only [Bool.and_eq_true] at this
+    exact this.2
 
 /-! ### encoder / decoder round trip -/
 
@@ -342,14 +387,14 @@ theorem encKids_len {α : Type} (k : Nat) (enc1 : Cnt → α → Res)
 
 theorem encF_len (d : Nat) : ∀ (fs : List Fmt) (tsh : List Nat) (ish : Option (List Nat)) (pidx : Nat) (cnt : Cnt)
     (a : Tree Int Int (d + 1)),
-    (encF d fs tsh ish pidx cnt a).cs.length = d + 1 ∧ (encF d fs tsh ish pidx cnt a).ps.length = d + 1 := by
+    (encF hu dflt d fs tsh ish pidx cnt a).cs.length = d + 1 ∧ (encF hu dflt d fs tsh ish pidx cnt a).ps.length = d + 1 := by
   induction d with
   | zero => intro fs tsh ish pidx cnt a; simp [encF]
   | succ d ih =>
     intro fs tsh ish pidx cnt a
     simp only [encF, List.length_cons]
     have := encKids_len (d + 1)
-      (encF d fs.tail tsh.tail (ishNext (fs.headD Fmt.U) ish) (cnt.headD (0, 0)).1)
+      (encF hu dflt d fs.tail tsh.tail (ishNext (fs.headD Fmt.U) ish) (cnt.headD (0, 0)).1)
       (fun c x => ih _ _ _ _ c x)
     constructor
     · exact congrArg (· + 1) (this _ _ _).1
@@ -420,14 +465,14 @@ theorem length_diffs (p : Int) (l : List Int) : (diffs p l).length = l.length :=
   | cons e r ih => simp [diffs, ih]
 
 theorem content_of_isEmpty : ∀ (d : Nat) (x : Tree Int Int d),
-    isEmpty (κ := Int) (0 : Int) d x = true → content (κ := Int) (0 : Int) d x = []
+    isEmpty (κ := Int) dflt d x = true → content (κ := Int) dflt d x = []
   | 0, v, h => by
     simp only [isEmpty, decide_eq_true_eq] at h
     simp only [content, h, if_true]
   | d + 1, f, h => by
     have key : ∀ (l : List (Int × Tree Int Int d)),
-        isEmpty (κ := Int) (0 : Int) (d + 1) (show Tree Int Int (d + 1) from l) = true →
-        content (κ := Int) (0 : Int) (d + 1) (show Tree Int Int (d + 1) from l) = [] := by
+        isEmpty (κ := Int) dflt (d + 1) (show Tree Int Int (d + 1) from l) = true →
+        content (κ := Int) dflt (d + 1) (show Tree Int Int (d + 1) from l) = [] := by
       intro l h
       simp only [isEmpty, List.all_eq_true] at h
       simp only [content]
@@ -438,26 +483,26 @@ theorem content_of_isEmpty : ∀ (d : Nat) (x : Tree Int Int d),
     exact key f h
 
 theorem content_succ (d : Nat) (a : Tree Int Int (d + 1)) :
-    content (κ := Int) (0 : Int) (d + 1) a
-      = (show List (Int × Tree Int Int d) from a).flatMap (fun e => (content (κ := Int) (0 : Int) d e.2).map (pre e.1)) := rfl
+    content (κ := Int) dflt (d + 1) a
+      = (show List (Int × Tree Int Int d) from a).flatMap (fun e => (content (κ := Int) dflt d e.2).map (pre e.1)) := rfl
 
 theorem leaf_filter_map (els : List (Int × Int)) :
-    (els.filter (fun e => !decide (e.2 = 0))).map (fun e => ([e.1], e.2))
-      = els.flatMap (fun e => (content (κ := Int) (ν := Int) (0 : Int) 0 e.2).map (pre e.1)) := by
+    (els.filter (fun e => !decide (e.2 = dflt))).map (fun e => ([e.1], e.2))
+      = els.flatMap (fun e => (content (κ := Int) (ν := Int) dflt 0 e.2).map (pre e.1)) := by
   induction els with
   | nil => rfl
   | cons e els ih =>
-    by_cases h : e.2 = 0
+    by_cases h : e.2 = dflt
     · simp [List.filter_cons, h, content, ih]
     · simp [List.filter_cons, h, content, ih, pre]
 
 theorem decF_encF_zero (fs : List Fmt) (tsh : List Nat) (ish : Option (List Nat)) (pidx : Nat) (cnt : Cnt)
     (a : List (Int × Int)) (n : Nat) (rc rp : List (List Int))
-    (hfs : fs.length = 1) (hwf : wfB (κ := Int) (ν := Int) 1 a = true) (hin : inEff 1 fs tsh ish a = true)
+    (hfs : fs.length = 1) (hwf : wfB (κ := Int) (ν := Int) 1 a = true) (hin : inShape 1 tsh a = true) (hdims : dimsOK fs tsh ish = true)
     (hrc : rc.length = 1) (hrp : rp.length = 1)
-    (hn : fs.headD .U = .C → n = (encF 0 fs tsh ish pidx cnt a).occ) :
-    decF 0 fs (effShape fs tsh ish) n (zipApp (encF 0 fs tsh ish pidx cnt a).cs rc)
-        (zipApp (encF 0 fs tsh ish pidx cnt a).ps rp) = ⟨content (κ := Int) (ν := Int) (0 : Int) 1 a, rc, rp⟩ := by
+    (hn : fs.headD .U = .C → n = (encF hu dflt 0 fs tsh ish pidx cnt a).occ) :
+    decF dflt 0 fs (effShape fs tsh ish) n (zipApp (encF hu dflt 0 fs tsh ish pidx cnt a).cs rc)
+        (zipApp (encF hu dflt 0 fs tsh ish pidx cnt a).ps rp) = ⟨content (κ := Int) (ν := Int) dflt 1 a, rc, rp⟩ := by
   match fs, hfs with
   | [f], _ =>
   match rc, hrc with
@@ -467,90 +512,85 @@ theorem decF_encF_zero (fs : List Fmt) (tsh : List Nat) (ish : Option (List Nat)
   have hs : Sorted a := by
     simp only [wfB, Bool.and_eq_true] at hwf
     exact (sortedB_iff _).1 hwf.1
-  have hin' : ∀ e ∈ a, 0 ≤ e.1 ∧ e.1 < ((dimOf tsh ish : Nat) : Int) := by
-    intro e he
-    have hin2 : (a.all fun e => decide (0 ≤ e.1) && decide (e.1 < ((dimOf tsh ish : Nat) : Int)) && true) = true := hin
-    rw [List.all_eq_true] at hin2
-    have := hin2 e he
-    simp only [Bool.and_eq_true, decide_eq_true_eq] at this
-    exact ⟨this.1.1, this.1.2⟩
-  obtain ⟨els, hels⟩ : ∃ els, els = elemsOf f (dimOf tsh ish) (0 : Int) (fun v => decide (v = 0)) a := ⟨_, rfl⟩
+  obtain ⟨htd, _, hin', _⟩ := cd_level_facts 0 f [] tsh ish a hin hdims
+  obtain ⟨els, hels⟩ : ∃ els, els = elemsOf f (hu 0) (dimOf tsh ish) (tsh.headD 0) dflt (fun v => decide (v = dflt)) a := ⟨_, rfl⟩
   have htc := takeCoords_stored f (dimOf tsh ish) n (els.map (·.1)) rc0
-    (by intro h; subst h; rw [hels]; exact elemsOf_U_coords _ _ _ _)
+    (by intro h; subst h; rw [hels]; exact elemsOf_U_coords _ _ _ _ _ _)
     (by intro h; subst h; rw [hels]; simpa [encF] using hn rfl)
-    (by rw [hels]; exact elemsOf_coords_inc _ _ _ _ _ hs) (by rw [hels]; exact elemsOf_coords_in _ _ _ _ _ hin')
+    (by rw [hels]; exact elemsOf_coords_inc _ _ _ _ _ _ _ hs) (by rw [hels]; exact elemsOf_coords_in _ _ _ _ _ _ _ htd hin')
   simp only [encF, decF, effShape, List.headD_cons, zipApp_cons, zipApp_nil_left]
   rw [← hels, htc]
   have hl : (els.map (·.2)).length = (els.map (·.1)).length := by simp
   simp only []
   rw [List.take_left' hl, List.drop_left' hl, zip_map_fst_snd, leaf_filter_map, hels]
-  have hd : ∀ c : Int, (content (κ := Int) (ν := Int) (0 : Int) 0 (0 : Int)).map (pre c) = [] := by
+  have hd : ∀ c : Int, (content (κ := Int) (ν := Int) dflt 0 dflt).map (pre c) = [] := by
     intro c; simp [content]
-  have hE : ∀ (c : Int) (x : Int), (fun v : Int => decide (v = 0)) x = true →
-      (content (κ := Int) (ν := Int) (0 : Int) 0 x).map (pre c) = [] := by
+  have hE : ∀ (c : Int) (x : Int), (fun v : Int => decide (v = dflt)) x = true →
+      (content (κ := Int) (ν := Int) dflt 0 x).map (pre c) = [] := by
     intro c x hx
-    have : x = 0 := by simpa using hx
+    have : x = dflt := by simpa using hx
     subst this; exact hd c
-  rw [flatMap_elemsOf (fun c (v : Int) => (content (κ := Int) (ν := Int) (0 : Int) 0 v).map (pre c)) f (dimOf tsh ish)
-        (0 : Int) _ hd hE a hs hin']
+  rw [flatMap_elemsOf (fun c (v : Int) => (content (κ := Int) (ν := Int) dflt 0 v).map (pre c)) f _ (dimOf tsh ish)
+        _ dflt _ hd hE a hs htd hin']
   rfl
 theorem encF_succ_cs (d : Nat) (f : Fmt) (fs' : List Fmt) (tsh : List Nat) (ish : Option (List Nat))
     (pidx : Nat) (cnt : Cnt) (a : List (Int × Tree Int Int (d + 1))) :
-    (encF (d + 1) (f :: fs') tsh ish pidx cnt a).cs =
+    (encF hu dflt (d + 1) (f :: fs') tsh ish pidx cnt a).cs =
       storedCoords f (dimOf tsh ish)
-        ((elemsOf f (dimOf tsh ish) (emptyT d) (isEmpty (κ := Int) (0 : Int) (d + 1)) a).map (·.1)) ::
-      (encKids (d + 1) (encF d fs' tsh.tail (ishNext f ish) (cnt.headD (0, 0)).1)
-        ((elemsOf f (dimOf tsh ish) (emptyT d) (isEmpty (κ := Int) (0 : Int) (d + 1)) a).map (·.2)) cnt.tail 0).cs := rfl
+        ((elemsOf f (hu (d + 1)) (dimOf tsh ish) (tsh.headD 0) (emptyT d) (isEmpty (κ := Int) dflt (d + 1)) a).map (·.1)) ::
+      (encKids (d + 1) (encF hu dflt d fs' tsh.tail (ishNext f ish) (cnt.headD (0, 0)).1)
+        ((elemsOf f (hu (d + 1)) (dimOf tsh ish) (tsh.headD 0) (emptyT d) (isEmpty (κ := Int) dflt (d + 1)) a).map (·.2)) cnt.tail 0).cs := rfl
 
 theorem encF_succ_ps (d : Nat) (f : Fmt) (fs' : List Fmt) (tsh : List Nat) (ish : Option (List Nat))
     (pidx : Nat) (cnt : Cnt) (a : List (Int × Tree Int Int (d + 1))) :
-    (encF (d + 1) (f :: fs') tsh ish pidx cnt a).ps =
+    (encF hu dflt (d + 1) (f :: fs') tsh ish pidx cnt a).ps =
       (if (fs'.headD .U).explicit then
-        (encKids (d + 1) (encF d fs' tsh.tail (ishNext f ish) (cnt.headD (0, 0)).1)
-          ((elemsOf f (dimOf tsh ish) (emptyT d) (isEmpty (κ := Int) (0 : Int) (d + 1)) a).map (·.2)) cnt.tail 0).cums
+        (encKids (d + 1) (encF hu dflt d fs' tsh.tail (ishNext f ish) (cnt.headD (0, 0)).1)
+          ((elemsOf f (hu (d + 1)) (dimOf tsh ish) (tsh.headD 0) (emptyT d) (isEmpty (κ := Int) dflt (d + 1)) a).map (·.2)) cnt.tail 0).cums
        else []) ::
-      (encKids (d + 1) (encF d fs' tsh.tail (ishNext f ish) (cnt.headD (0, 0)).1)
-        ((elemsOf f (dimOf tsh ish) (emptyT d) (isEmpty (κ := Int) (0 : Int) (d + 1)) a).map (·.2)) cnt.tail 0).ps := rfl
+      (encKids (d + 1) (encF hu dflt d fs' tsh.tail (ishNext f ish) (cnt.headD (0, 0)).1)
+        ((elemsOf f (hu (d + 1)) (dimOf tsh ish) (tsh.headD 0) (emptyT d) (isEmpty (κ := Int) dflt (d + 1)) a).map (·.2)) cnt.tail 0).ps := rfl
 
 theorem encF_succ_occ (d : Nat) (f : Fmt) (fs' : List Fmt) (tsh : List Nat) (ish : Option (List Nat))
     (pidx : Nat) (cnt : Cnt) (a : List (Int × Tree Int Int (d + 1))) :
-    (encF (d + 1) (f :: fs') tsh ish pidx cnt a).occ =
+    (encF hu dflt (d + 1) (f :: fs') tsh ish pidx cnt a).occ =
       (match f with
        | .U => pidx
-       | _ => (elemsOf f (dimOf tsh ish) (emptyT d) (isEmpty (κ := Int) (0 : Int) (d + 1)) a).length) := rfl
+       | _ => (elemsOf f (hu (d + 1)) (dimOf tsh ish) (tsh.headD 0) (emptyT d) (isEmpty (κ := Int) dflt (d + 1)) a).length) := rfl
 
 theorem decF_succ (d : Nat) (f : Fmt) (fs' : List Fmt) (sh : Nat) (shs : List Nat) (n : Nat)
     (c : List Int) (cs : List (List Int)) (p : List Int) (ps : List (List Int)) :
-    decF (d + 1) (f :: fs') (sh :: shs) n (c :: cs) (p :: ps) =
-      ⟨(decKids (decF d fs' shs)
+    decF dflt (d + 1) (f :: fs') (sh :: shs) n (c :: cs) (p :: ps) =
+      ⟨(decKids (decF dflt d fs' shs)
           ((takeCoords f sh n c).1.zip
             (if (fs'.headD .U).explicit then diffs 0 (p.take (takeCoords f sh n c).1.length)
              else List.replicate (takeCoords f sh n c).1.length 0)) cs ps).cont,
        (takeCoords f sh n c).2 ::
-        (decKids (decF d fs' shs)
+        (decKids (decF dflt d fs' shs)
           ((takeCoords f sh n c).1.zip
             (if (fs'.headD .U).explicit then diffs 0 (p.take (takeCoords f sh n c).1.length)
              else List.replicate (takeCoords f sh n c).1.length 0)) cs ps).cs,
        (if (fs'.headD .U).explicit then p.drop (takeCoords f sh n c).1.length else p) ::
-        (decKids (decF d fs' shs)
+        (decKids (decF dflt d fs' shs)
           ((takeCoords f sh n c).1.zip
             (if (fs'.headD .U).explicit then diffs 0 (p.take (takeCoords f sh n c).1.length)
              else List.replicate (takeCoords f sh n c).1.length 0)) cs ps).ps⟩ := rfl
 
 theorem decF_encF (d : Nat) : ∀ (fs : List Fmt) (tsh : List Nat) (ish : Option (List Nat)) (pidx : Nat) (cnt : Cnt)
     (a : List (Int × Tree Int Int d)) (n : Nat) (rc rp : List (List Int)),
-    fs.length = d + 1 → wfB (κ := Int) (ν := Int) (d + 1) a = true → inEff (d + 1) fs tsh ish a = true →
+    fs.length = d + 1 → wfB (κ := Int) (ν := Int) (d + 1) a = true → inShape (d + 1) tsh a = true →
+    dimsOK fs tsh ish = true →
     rc.length = d + 1 → rp.length = d + 1 →
-    (fs.headD .U = .C → n = (encF d fs tsh ish pidx cnt a).occ) →
-    decF d fs (effShape fs tsh ish) n (zipApp (encF d fs tsh ish pidx cnt a).cs rc)
-        (zipApp (encF d fs tsh ish pidx cnt a).ps rp)
-      = ⟨content (κ := Int) (ν := Int) (0 : Int) (d + 1) a, rc, rp⟩ := by
+    (fs.headD .U = .C → n = (encF hu dflt d fs tsh ish pidx cnt a).occ) →
+    decF dflt d fs (effShape fs tsh ish) n (zipApp (encF hu dflt d fs tsh ish pidx cnt a).cs rc)
+        (zipApp (encF hu dflt d fs tsh ish pidx cnt a).ps rp)
+      = ⟨content (κ := Int) (ν := Int) dflt (d + 1) a, rc, rp⟩ := by
   induction d with
   | zero =>
-    intro fs tsh ish pidx cnt a n rc rp hfs hwf hin hrc hrp hn
-    exact decF_encF_zero fs tsh ish pidx cnt a n rc rp hfs hwf hin hrc hrp hn
+    intro fs tsh ish pidx cnt a n rc rp hfs hwf hin hdims hrc hrp hn
+    exact decF_encF_zero fs tsh ish pidx cnt a n rc rp hfs hwf hin hdims hrc hrp hn
   | succ d ih =>
-    intro fs tsh ish pidx cnt a n rc rp hfs hwf hin hrc hrp hn
+    intro fs tsh ish pidx cnt a n rc rp hfs hwf hin hdims hrc hrp hn
     match fs, hfs with
     | f :: fs', hfs' =>
     match rc, hrc with
@@ -564,62 +604,53 @@ theorem decF_encF (d : Nat) : ∀ (fs : List Fmt) (tsh : List Nat) (ish : Option
     rw [Bool.and_eq_true, List.all_eq_true] at hwf2
     have hs : Sorted a := (sortedB_iff _).1 hwf2.1
     obtain ⟨ishK, hishK⟩ : ∃ ishK, ishK = ishNext f ish := ⟨_, rfl⟩
-    have hin2 : (a.all fun e => decide (0 ≤ e.1) && decide (e.1 < ((dimOf tsh ish : Nat) : Int)) &&
-        inEff (d + 1) fs' tsh.tail ishK e.2) = true := by rw [hishK]; exact hin
-    rw [List.all_eq_true] at hin2
-    have hin' : ∀ e ∈ a, 0 ≤ e.1 ∧ e.1 < ((dimOf tsh ish : Nat) : Int) := by
-      intro e he
-      have := hin2 e he
-      simp only [Bool.and_eq_true, decide_eq_true_eq] at this
-      exact ⟨this.1.1, this.1.2⟩
-    obtain ⟨els, hels⟩ : ∃ els, els = elemsOf f (dimOf tsh ish)
-        (emptyT d) (isEmpty (κ := Int) (0 : Int) (d + 1)) a := ⟨_, rfl⟩
+    obtain ⟨htd, hdk, hin', hkin⟩ := cd_level_facts (d + 1) f fs' tsh ish a hin hdims
+    obtain ⟨els, hels⟩ : ∃ els, els = elemsOf f (hu (d + 1)) (dimOf tsh ish) (tsh.headD 0)
+        (emptyT d) (isEmpty (κ := Int) dflt (d + 1)) a := ⟨_, rfl⟩
     have hn' : f = .C → n = els.length := by
       intro h; subst h; rw [hels]; simpa [encF_succ_occ] using hn rfl
     have htc := takeCoords_stored f (dimOf tsh ish) n (els.map (·.1)) rc0
-      (by intro h; subst h; rw [hels]; exact elemsOf_U_coords _ _ _ _) (by intro h; rw [hn' h]; simp)
-      (by rw [hels]; exact elemsOf_coords_inc _ _ _ _ _ hs) (by rw [hels]; exact elemsOf_coords_in _ _ _ _ _ hin')
+      (by intro h; subst h; rw [hels]; exact elemsOf_U_coords _ _ _ _ _ _) (by intro h; rw [hn' h]; simp)
+      (by rw [hels]; exact elemsOf_coords_inc _ _ _ _ _ _ _ hs) (by rw [hels]; exact elemsOf_coords_in _ _ _ _ _ _ _ htd hin')
     -- every child is well-formed and inside its extents
-    have hP : ∀ e ∈ els, wfB (κ := Int) (ν := Int) (d + 1) e.2 = true ∧ inEff (d + 1) fs' tsh.tail ishK e.2 = true := by
+    have hP : ∀ e ∈ els, wfB (κ := Int) (ν := Int) (d + 1) e.2 = true ∧ inShape (d + 1) tsh.tail e.2 = true := by
       intro e he
       rw [hels] at he
-      rcases elemsOf_payload _ _ _ _ _ e he with h | ⟨e', he', h⟩
+      rcases elemsOf_payload _ _ _ _ _ _ _ e he with h | ⟨e', he', h⟩
       · rw [h]; constructor <;> rfl
       · rw [← h]
         refine ⟨hwf2.2 e' he', ?_⟩
-        have := hin2 e' he'
-        simp only [Bool.and_eq_true] at this
-        exact this.2
+        exact hkin e' he'
     have hlenE : ∀ (c : Cnt) (x : Tree Int Int (d + 1)),
-        (encF d fs' tsh.tail ishK (cnt.headD (0, 0)).1 c x).cs.length = d + 1 ∧
-        (encF d fs' tsh.tail ishK (cnt.headD (0, 0)).1 c x).ps.length = d + 1 :=
+        (encF hu dflt d fs' tsh.tail ishK (cnt.headD (0, 0)).1 c x).cs.length = d + 1 ∧
+        (encF hu dflt d fs' tsh.tail ishK (cnt.headD (0, 0)).1 c x).ps.length = d + 1 :=
       fun c x => encF_len d _ _ _ _ c x
-    obtain ⟨K, hK⟩ : ∃ K, K = encKids (d + 1) (encF d fs' tsh.tail ishK (cnt.headD (0, 0)).1)
+    obtain ⟨K, hK⟩ : ∃ K, K = encKids (d + 1) (encF hu dflt d fs' tsh.tail ishK (cnt.headD (0, 0)).1)
         (els.map (·.2)) cnt.tail 0 := ⟨_, rfl⟩
     have hKlen := encKids_len (d + 1) _ hlenE (els.map (·.2)) cnt.tail 0
     rw [← hK] at hKlen
     rw [encF_succ_cs, encF_succ_ps, ← hishK, ← hels, ← hK]
-    show decF (d + 1) (f :: fs') (dimOf tsh ish :: effShape fs' tsh.tail (ishNext f ish)) n _ _ = _
+    show decF dflt (d + 1) (f :: fs') (dimOf tsh ish :: effShape fs' tsh.tail (ishNext f ish)) n _ _ = _
     rw [zipApp_cons, zipApp_cons, decF_succ, htc, ← hishK]
     have hcl : K.cums.length = (els.map (·.1)).length := by rw [hKlen.2.2]; simp
-    have hcont : els.flatMap (fun e => (content (κ := Int) (ν := Int) (0 : Int) (d + 1) e.2).map (pre e.1))
-        = content (κ := Int) (ν := Int) (0 : Int) (d + 1 + 1) a := by
+    have hcont : els.flatMap (fun e => (content (κ := Int) (ν := Int) dflt (d + 1) e.2).map (pre e.1))
+        = content (κ := Int) (ν := Int) dflt (d + 1 + 1) a := by
       rw [hels]
-      show _ = a.flatMap (fun e => (content (κ := Int) (ν := Int) (0 : Int) (d + 1) e.2).map (pre e.1))
-      exact flatMap_elemsOf (fun c (x : Tree Int Int (d + 1)) => (content (κ := Int) (ν := Int) (0 : Int) (d + 1) x).map (pre c))
-        f (dimOf tsh ish) (emptyT d) _ (by intro c; rfl)
-        (by intro c x hx; rw [content_of_isEmpty (d + 1) x hx]; rfl) a hs hin'
+      show _ = a.flatMap (fun e => (content (κ := Int) (ν := Int) dflt (d + 1) e.2).map (pre e.1))
+      exact flatMap_elemsOf (fun c (x : Tree Int Int (d + 1)) => (content (κ := Int) (ν := Int) dflt (d + 1) x).map (pre c))
+        f _ (dimOf tsh ish) _ (emptyT d) _ (by intro c; rfl)
+        (by intro c x hx; rw [content_of_isEmpty (d + 1) x hx]; rfl) a hs htd hin'
     have hdk : ∀ sizes : List Nat, sizes.length = els.length →
         (fs'.headD .U = .C → sizes = diffs ((0 : Nat) : Int) K.cums) →
-        decKids (decF d fs' (effShape fs' tsh.tail ishK)) ((els.map (·.1)).zip sizes) (zipApp K.cs rc') (zipApp K.ps rp')
-          = ⟨content (κ := Int) (ν := Int) (0 : Int) (d + 1 + 1) a, rc', rp'⟩ := by
+        decKids (decF dflt d fs' (effShape fs' tsh.tail ishK)) ((els.map (·.1)).zip sizes) (zipApp K.cs rc') (zipApp K.ps rp')
+          = ⟨content (κ := Int) (ν := Int) dflt (d + 1 + 1) a, rc', rp'⟩ := by
       intro sizes hsz hN
       rw [hK, ← hcont]
-      exact decKids_encKids (d + 1) (encF d fs' tsh.tail ishK (cnt.headD (0, 0)).1)
-        (decF d fs' (effShape fs' tsh.tail ishK)) (fun x => content (κ := Int) (ν := Int) (0 : Int) (d + 1) x)
+      exact decKids_encKids (d + 1) (encF hu dflt d fs' tsh.tail ishK (cnt.headD (0, 0)).1)
+        (decF dflt d fs' (effShape fs' tsh.tail ishK)) (fun x => content (κ := Int) (ν := Int) dflt (d + 1) x)
         (fs'.headD .U = .C)
-        (fun x => wfB (κ := Int) (ν := Int) (d + 1) x = true ∧ inEff (d + 1) fs' tsh.tail ishK x = true)
-        (fun x hx c n rc rp hrc hrp hn => ih fs' tsh.tail ishK _ c x n rc rp hfs'' hx.1 hx.2 hrc hrp hn)
+        (fun x => wfB (κ := Int) (ν := Int) (d + 1) x = true ∧ inShape (d + 1) tsh.tail x = true)
+        (fun x hx c n rc rp hrc hrp hn => ih fs' tsh.tail ishK _ c x n rc rp hfs'' hx.1 hx.2 (by rw [hishK]; exact hdk) hrc hrp hn)
         hlenE els hP cnt.tail 0 rc' rp' hrc'' hrp'' sizes hsz (by rw [← hK]; exact hN)
     cases hg : (fs'.headD .U).explicit with
     | true =>
@@ -712,30 +743,17 @@ theorem dimOf_ge (tsh : List Nat) (ish : Option (List Nat)) (h : IshOK ish tsh) 
       | nil => simp [shapeGe] at h'
       | cons b tsh => simp [shapeGe] at h'; simpa [dimOf] using h'.1
 
-theorem inEff_of_inShape (d : Nat) : ∀ (fs : List Fmt) (tsh : List Nat) (ish : Option (List Nat)) (a : Tree Int Int d),
-    inShape d tsh a = true → IshOK ish tsh → inEff d fs tsh ish a = true := by
-  induction d with
-  | zero => intro _ _ _ _ _ _; rfl
-  | succ d ih =>
-    intro fs tsh ish a
-    have key : ∀ (l : List (Int × Tree Int Int d)), inShape (d + 1) tsh (show Tree Int Int (d + 1) from l) = true →
-        IshOK ish tsh → inEff (d + 1) fs tsh ish (show Tree Int Int (d + 1) from l) = true := by
-      intro l h hok
-      have h2 : (l.all fun e => decide (0 ≤ e.1) && decide (e.1 < ((tsh.headD 0 : Nat) : Int)) &&
-          inShape d tsh.tail e.2) = true := h
-      show (l.all fun e => decide (0 ≤ e.1) && decide (e.1 < ((dimOf tsh ish : Nat) : Int)) &&
-          inEff d fs.tail tsh.tail (ishNext (fs.headD .U) ish) e.2) = true
-      rw [List.all_eq_true] at h2 ⊢
-      intro e he
-      have := h2 e he
-      simp only [Bool.and_eq_true, decide_eq_true_eq] at this ⊢
-      have hd := dimOf_ge tsh ish hok
-      refine ⟨⟨this.1.1, by omega⟩, ih _ _ _ _ this.2 (IshOK_next _ _ _ hok)⟩
-    exact key a
+theorem cd_dimsOK_of_IshOK : ∀ (fs : List Fmt) (tsh : List Nat) (ish : Option (List Nat)),
+    IshOK ish tsh → dimsOK fs tsh ish = true
+  | [], _, _, _ => rfl
+  | f :: fs, tsh, ish, h => by
+    show (decide (tsh.headD 0 ≤ dimOf tsh ish) && dimsOK fs tsh.tail (ishNext f ish)) = true
+    rw [Bool.and_eq_true, decide_eq_true_eq]
+    exact ⟨dimOf_ge tsh ish h, cd_dimsOK_of_IshOK fs tsh.tail (ishNext f ish) (IshOK_next f ish tsh h)⟩
 
 /-- the decoder does not look at the extent of a C rank -/
 theorem decF_agree (d : Nat) : ∀ (fs : List Fmt) (s1 s2 : List Nat), agreeNonC fs s1 s2 = true →
-    fs.length = d + 1 → decF d fs s1 = decF d fs s2 := by
+    fs.length = d + 1 → decF dflt d fs s1 = decF dflt d fs s2 := by
   induction d with
   | zero =>
     intro fs s1 s2 h hl
@@ -966,106 +984,92 @@ theorem encKids_fibs {α : Type} (P : EFib → Prop) (Q : α → Prop) (k : Nat)
 
 theorem encF_zero_fibs (f : Fmt) (fs' : List Fmt) (tsh : List Nat) (ish : Option (List Nat)) (pidx : Nat) (cnt : Cnt)
     (a : List (Int × Int)) :
-    (encF 0 (f :: fs') tsh ish pidx cnt a).fibs =
+    (encF hu dflt 0 (f :: fs') tsh ish pidx cnt a).fibs =
       [[{ fmt := f, next := none, shape := dimOf tsh ish,
-          n := (elemsOf f (dimOf tsh ish) (0 : Int) (fun v => decide (v = 0)) a).length,
-          ecoords := (elemsOf f (dimOf tsh ish) (0 : Int) (fun v => decide (v = 0)) a).map (·.1),
-          coords := storedCoords f (dimOf tsh ish) ((elemsOf f (dimOf tsh ish) (0 : Int) (fun v => decide (v = 0)) a).map (·.1)),
-          occs := [], vals := (elemsOf f (dimOf tsh ish) (0 : Int) (fun v => decide (v = 0)) a).map (·.2),
-          npay := (elemsOf f (dimOf tsh ish) (0 : Int) (fun v => decide (v = 0)) a).length,
-          nnz := (match f with | .U => pidx | _ => (elemsOf f (dimOf tsh ish) (0 : Int) (fun v => decide (v = 0)) a).length),
+          n := (elemsOf f (hu 0) (dimOf tsh ish) (tsh.headD 0) dflt (fun v => decide (v = dflt)) a).length,
+          ecoords := (elemsOf f (hu 0) (dimOf tsh ish) (tsh.headD 0) dflt (fun v => decide (v = dflt)) a).map (·.1),
+          coords := storedCoords f (dimOf tsh ish) ((elemsOf f (hu 0) (dimOf tsh ish) (tsh.headD 0) dflt (fun v => decide (v = dflt)) a).map (·.1)),
+          occs := [], vals := (elemsOf f (hu 0) (dimOf tsh ish) (tsh.headD 0) dflt (fun v => decide (v = dflt)) a).map (·.2),
+          npay := (elemsOf f (hu 0) (dimOf tsh ish) (tsh.headD 0) dflt (fun v => decide (v = dflt)) a).length,
+          nnz := (match f with | .U => pidx | _ => (elemsOf f (hu 0) (dimOf tsh ish) (tsh.headD 0) dflt (fun v => decide (v = dflt)) a).length),
           idx := (cnt.headD (0, 0)).1, osf := (cnt.headD (0, 0)).2, kid0 := 0 }]] := rfl
 
 theorem encF_succ_fibs (d : Nat) (f : Fmt) (fs' : List Fmt) (tsh : List Nat) (ish : Option (List Nat))
     (pidx : Nat) (cnt : Cnt) (a : List (Int × Tree Int Int (d + 1))) :
-    (encF (d + 1) (f :: fs') tsh ish pidx cnt a).fibs =
+    (encF hu dflt (d + 1) (f :: fs') tsh ish pidx cnt a).fibs =
       [{ fmt := f, next := some (fs'.headD .U), shape := dimOf tsh ish,
-         n := (elemsOf f (dimOf tsh ish) (emptyT d) (isEmpty (κ := Int) (0 : Int) (d + 1)) a).length,
-         ecoords := (elemsOf f (dimOf tsh ish) (emptyT d) (isEmpty (κ := Int) (0 : Int) (d + 1)) a).map (·.1),
+         n := (elemsOf f (hu (d + 1)) (dimOf tsh ish) (tsh.headD 0) (emptyT d) (isEmpty (κ := Int) dflt (d + 1)) a).length,
+         ecoords := (elemsOf f (hu (d + 1)) (dimOf tsh ish) (tsh.headD 0) (emptyT d) (isEmpty (κ := Int) dflt (d + 1)) a).map (·.1),
          coords := storedCoords f (dimOf tsh ish)
-           ((elemsOf f (dimOf tsh ish) (emptyT d) (isEmpty (κ := Int) (0 : Int) (d + 1)) a).map (·.1)),
+           ((elemsOf f (hu (d + 1)) (dimOf tsh ish) (tsh.headD 0) (emptyT d) (isEmpty (κ := Int) dflt (d + 1)) a).map (·.1)),
          occs := (if (fs'.headD .U).explicit then
-                    (encKids (d + 1) (encF d fs' tsh.tail (ishNext f ish) (cnt.headD (0, 0)).1)
-                      ((elemsOf f (dimOf tsh ish) (emptyT d) (isEmpty (κ := Int) (0 : Int) (d + 1)) a).map (·.2))
+                    (encKids (d + 1) (encF hu dflt d fs' tsh.tail (ishNext f ish) (cnt.headD (0, 0)).1)
+                      ((elemsOf f (hu (d + 1)) (dimOf tsh ish) (tsh.headD 0) (emptyT d) (isEmpty (κ := Int) dflt (d + 1)) a).map (·.2))
                       cnt.tail 0).cums
                   else []),
          vals := [],
          npay := (match f with
                   | .C => (if (fs'.headD .U).explicit then
-                            (elemsOf f (dimOf tsh ish) (emptyT d) (isEmpty (κ := Int) (0 : Int) (d + 1)) a).length else 0)
-                  | _ => (elemsOf f (dimOf tsh ish) (emptyT d) (isEmpty (κ := Int) (0 : Int) (d + 1)) a).length),
+                            (elemsOf f (hu (d + 1)) (dimOf tsh ish) (tsh.headD 0) (emptyT d) (isEmpty (κ := Int) dflt (d + 1)) a).length else 0)
+                  | _ => (elemsOf f (hu (d + 1)) (dimOf tsh ish) (tsh.headD 0) (emptyT d) (isEmpty (κ := Int) dflt (d + 1)) a).length),
          nnz := (match f with
                  | .U => pidx
-                 | _ => (elemsOf f (dimOf tsh ish) (emptyT d) (isEmpty (κ := Int) (0 : Int) (d + 1)) a).length),
+                 | _ => (elemsOf f (hu (d + 1)) (dimOf tsh ish) (tsh.headD 0) (emptyT d) (isEmpty (κ := Int) dflt (d + 1)) a).length),
          idx := (cnt.headD (0, 0)).1, osf := (cnt.headD (0, 0)).2, kid0 := (cnt.tail.headD (0, 0)).1 }] ::
-      (encKids (d + 1) (encF d fs' tsh.tail (ishNext f ish) (cnt.headD (0, 0)).1)
-        ((elemsOf f (dimOf tsh ish) (emptyT d) (isEmpty (κ := Int) (0 : Int) (d + 1)) a).map (·.2)) cnt.tail 0).fibs := rfl
+      (encKids (d + 1) (encF hu dflt d fs' tsh.tail (ishNext f ish) (cnt.headD (0, 0)).1)
+        ((elemsOf f (hu (d + 1)) (dimOf tsh ish) (tsh.headD 0) (emptyT d) (isEmpty (κ := Int) dflt (d + 1)) a).map (·.2)) cnt.tail 0).fibs := rfl
 
 theorem encF_fibs_facts_zero (fs : List Fmt) (tsh : List Nat) (ish : Option (List Nat)) (pidx : Nat) (cnt : Cnt)
     (a : List (Int × Int))
-    (hfs : fs.length = 1) (hwf : wfB (κ := Int) (ν := Int) 1 a = true) (hin : inEff 1 fs tsh ish a = true) :
-    ∀ F ∈ (encF 0 fs tsh ish pidx cnt a).fibs.flatten, FibFacts F := by
+    (hfs : fs.length = 1) (hwf : wfB (κ := Int) (ν := Int) 1 a = true) (hin : inShape 1 tsh a = true) (hdims : dimsOK fs tsh ish = true) :
+    ∀ F ∈ (encF hu dflt 0 fs tsh ish pidx cnt a).fibs.flatten, FibFacts F := by
   intro F hF
   match fs, hfs with
   | [f], _ =>
   have hwf2 : (sortedB a && a.all (fun e => wfB (κ := Int) (ν := Int) 0 e.2)) = true := hwf
   rw [Bool.and_eq_true] at hwf2
   have hs : Sorted a := (sortedB_iff _).1 hwf2.1
-  have hin2 : (a.all fun e => decide (0 ≤ e.1) && decide (e.1 < ((dimOf tsh ish : Nat) : Int)) && true) = true := hin
-  rw [List.all_eq_true] at hin2
-  have hin' : ∀ e ∈ a, 0 ≤ e.1 ∧ e.1 < ((dimOf tsh ish : Nat) : Int) := by
-    intro e he
-    have := hin2 e he
-    simp only [Bool.and_eq_true, decide_eq_true_eq] at this
-    exact ⟨this.1.1, this.1.2⟩
+  obtain ⟨htd, _, hin', _⟩ := cd_level_facts 0 f [] tsh ish a hin hdims
   rw [encF_zero_fibs] at hF
   simp only [List.flatten_cons, List.flatten_nil, List.append_nil, List.mem_singleton] at hF
   subst hF
-  refine ⟨by simp, rfl, elemsOf_coords_inc _ _ _ _ _ hs, elemsOf_coords_in _ _ _ _ _ hin', ?_, rfl, by simp, ?_⟩
-  · intro h; simp only at h; subst h; exact elemsOf_U_coords _ _ _ _
+  refine ⟨by simp, rfl, elemsOf_coords_inc _ _ _ _ _ _ _ hs, elemsOf_coords_in _ _ _ _ _ _ _ htd hin', ?_, rfl, by simp, ?_⟩
+  · intro h; simp only at h; subst h; exact elemsOf_U_coords _ _ _ _ _ _
   · cases f <;> rfl
 
 /-- every fiber object the encoder creates satisfies the invariant -/
 theorem encF_fibs_facts (d : Nat) : ∀ (fs : List Fmt) (tsh : List Nat) (ish : Option (List Nat)) (pidx : Nat) (cnt : Cnt)
     (a : List (Int × Tree Int Int d)),
-    fs.length = d + 1 → wfB (κ := Int) (ν := Int) (d + 1) a = true → inEff (d + 1) fs tsh ish a = true →
-    ∀ F ∈ (encF d fs tsh ish pidx cnt a).fibs.flatten, FibFacts F := by
+    fs.length = d + 1 → wfB (κ := Int) (ν := Int) (d + 1) a = true → inShape (d + 1) tsh a = true →
+    dimsOK fs tsh ish = true →
+    ∀ F ∈ (encF hu dflt d fs tsh ish pidx cnt a).fibs.flatten, FibFacts F := by
   induction d with
   | zero =>
-    intro fs tsh ish pidx cnt a hfs hwf hin
-    exact encF_fibs_facts_zero fs tsh ish pidx cnt a hfs hwf hin
+    intro fs tsh ish pidx cnt a hfs hwf hin hdims
+    exact encF_fibs_facts_zero fs tsh ish pidx cnt a hfs hwf hin hdims
   | succ d ih =>
-    intro fs tsh ish pidx cnt a hfs hwf hin F hF
+    intro fs tsh ish pidx cnt a hfs hwf hin hdims F hF
     match fs, hfs with
     | f :: fs', hfs' =>
     have hfs'' : fs'.length = d + 1 := by simpa using hfs'
     have hwf2 : (sortedB a && a.all (fun e => wfB (κ := Int) (ν := Int) (d + 1) e.2)) = true := hwf
     rw [Bool.and_eq_true, List.all_eq_true] at hwf2
     have hs : Sorted a := (sortedB_iff _).1 hwf2.1
-    have hin2 : (a.all fun e => decide (0 ≤ e.1) && decide (e.1 < ((dimOf tsh ish : Nat) : Int)) &&
-        inEff (d + 1) fs' tsh.tail (ishNext f ish) e.2) = true := hin
-    rw [List.all_eq_true] at hin2
-    have hin' : ∀ e ∈ a, 0 ≤ e.1 ∧ e.1 < ((dimOf tsh ish : Nat) : Int) := by
-      intro e he
-      have := hin2 e he
-      simp only [Bool.and_eq_true, decide_eq_true_eq] at this
-      exact ⟨this.1.1, this.1.2⟩
-    obtain ⟨els, hels⟩ : ∃ els, els = elemsOf f (dimOf tsh ish) (emptyT d) (isEmpty (κ := Int) (0 : Int) (d + 1)) a := ⟨_, rfl⟩
+    obtain ⟨htd, hdk, hin', hkin⟩ := cd_level_facts (d + 1) f fs' tsh ish a hin hdims
+    obtain ⟨els, hels⟩ : ∃ els, els = elemsOf f (hu (d + 1)) (dimOf tsh ish) (tsh.headD 0) (emptyT d) (isEmpty (κ := Int) dflt (d + 1)) a := ⟨_, rfl⟩
     have hP : ∀ x ∈ els.map (·.2), wfB (κ := Int) (ν := Int) (d + 1) x = true ∧
-        inEff (d + 1) fs' tsh.tail (ishNext f ish) x = true := by
+        inShape (d + 1) tsh.tail x = true := by
       intro x hx
       obtain ⟨e, he, rfl⟩ := List.mem_map.1 hx
       rw [hels] at he
-      rcases elemsOf_payload _ _ _ _ _ e he with h | ⟨e', he', h⟩
+      rcases elemsOf_payload _ _ _ _ _ _ _ e he with h | ⟨e', he', h⟩
       · rw [h]; constructor <;> rfl
       · rw [← h]
         refine ⟨hwf2.2 e' he', ?_⟩
-        have := hin2 e' he'
-        simp only [Bool.and_eq_true] at this
-        exact this.2
+        exact hkin e' he'
     have hlenE : ∀ (c : Cnt) (x : Tree Int Int (d + 1)),
-        (encF d fs' tsh.tail (ishNext f ish) (cnt.headD (0, 0)).1 c x).cs.length = d + 1 ∧
-        (encF d fs' tsh.tail (ishNext f ish) (cnt.headD (0, 0)).1 c x).ps.length = d + 1 :=
+        (encF hu dflt d fs' tsh.tail (ishNext f ish) (cnt.headD (0, 0)).1 c x).cs.length = d + 1 ∧
+        (encF hu dflt d fs' tsh.tail (ishNext f ish) (cnt.headD (0, 0)).1 c x).ps.length = d + 1 :=
       fun c x => encF_len d _ _ _ _ c x
     have hKlen := encKids_len (d + 1) _ hlenE (els.map (·.2)) cnt.tail 0
     rw [encF_succ_fibs, ← hels] at hF
@@ -1073,17 +1077,17 @@ theorem encF_fibs_facts (d : Nat) : ∀ (fs : List Fmt) (tsh : List Nat) (ish : 
     rcases hF with hF | hF
     · simp only [List.mem_singleton] at hF
       subst hF
-      refine ⟨by simp, rfl, by rw [hels]; exact elemsOf_coords_inc _ _ _ _ _ hs,
-        by rw [hels]; exact elemsOf_coords_in _ _ _ _ _ hin', ?_, ?_, rfl, ?_⟩
-      · intro h; simp only at h; subst h; rw [hels]; exact elemsOf_U_coords _ _ _ _
+      refine ⟨by simp, rfl, by rw [hels]; exact elemsOf_coords_inc _ _ _ _ _ _ _ hs,
+        by rw [hels]; exact elemsOf_coords_in _ _ _ _ _ _ _ htd hin', ?_, ?_, rfl, ?_⟩
+      · intro h; simp only at h; subst h; rw [hels]; exact elemsOf_U_coords _ _ _ _ _ _
       · simp only
         cases (fs'.headD .U).explicit with
         | true => simp only [if_true]; rw [hKlen.2.2]; simp
         | false => simp
       · cases f <;> rfl
     · exact encKids_fibs FibFacts
-        (fun x => wfB (κ := Int) (ν := Int) (d + 1) x = true ∧ inEff (d + 1) fs' tsh.tail (ishNext f ish) x = true)
-        (d + 1) _ (fun c x hx => ih fs' tsh.tail (ishNext f ish) _ c x hfs'' hx.1 hx.2) _ hP _ _ F hF
+        (fun x => wfB (κ := Int) (ν := Int) (d + 1) x = true ∧ inShape (d + 1) tsh.tail x = true)
+        (d + 1) _ (fun c x hx => ih fs' tsh.tail (ishNext f ish) _ c x hfs'' hx.1 hx.2 hdk) _ hP _ _ F hF
 
 
 /-! ### lookup, size, scan of an encoded fiber -/
@@ -1451,34 +1455,34 @@ theorem cd_encKids_inv {α : Type} (I : Cnt → Prop) (P : EFib → Prop) (k : N
 
 theorem cd_encF_zero_cnt (f : Fmt) (fs' : List Fmt) (tsh : List Nat) (ish : Option (List Nat)) (pidx : Nat) (cnt : Cnt)
     (a : List (Int × Int)) :
-    ((encF 0 (f :: fs') tsh ish pidx cnt a).cnt.headD (0, 0)).1 = (cnt.headD (0, 0)).1 + 1 := rfl
+    ((encF hu dflt 0 (f :: fs') tsh ish pidx cnt a).cnt.headD (0, 0)).1 = (cnt.headD (0, 0)).1 + 1 := rfl
 
 theorem cd_encF_succ_cnt (d : Nat) (f : Fmt) (fs' : List Fmt) (tsh : List Nat) (ish : Option (List Nat))
     (pidx : Nat) (cnt : Cnt) (a : List (Int × Tree Int Int (d + 1))) :
-    (encF (d + 1) (f :: fs') tsh ish pidx cnt a).cnt =
+    (encF hu dflt (d + 1) (f :: fs') tsh ish pidx cnt a).cnt =
       ((cnt.headD (0, 0)).1 + 1,
        (cnt.headD (0, 0)).2 + (match f with
          | .U => pidx
-         | _ => (elemsOf f (dimOf tsh ish) (emptyT d) (isEmpty (κ := Int) (0 : Int) (d + 1)) a).length)) ::
-      (encKids (d + 1) (encF d fs' tsh.tail (ishNext f ish) (cnt.headD (0, 0)).1)
-        ((elemsOf f (dimOf tsh ish) (emptyT d) (isEmpty (κ := Int) (0 : Int) (d + 1)) a).map (·.2)) cnt.tail 0).cnt := rfl
+         | _ => (elemsOf f (hu (d + 1)) (dimOf tsh ish) (tsh.headD 0) (emptyT d) (isEmpty (κ := Int) dflt (d + 1)) a).length)) ::
+      (encKids (d + 1) (encF hu dflt d fs' tsh.tail (ishNext f ish) (cnt.headD (0, 0)).1)
+        ((elemsOf f (hu (d + 1)) (dimOf tsh ish) (tsh.headD 0) (emptyT d) (isEmpty (κ := Int) dflt (d + 1)) a).map (·.2)) cnt.tail 0).cnt := rfl
 
 /-- the encoder keeps the rank counters consistent, advances its own rank's fiber count by one,
     and every fiber object it creates has its `occupancy_so_far` equal to its first child's position -/
 theorem cd_encF_cnt (d : Nat) : ∀ (fs : List Fmt) (tsh : List Nat) (ish : Option (List Nat)) (pidx : Nat) (cnt : Cnt)
     (a : List (Int × Tree Int Int d)), fs.length = d + 1 → cd_CntInv fs cnt →
-    cd_CntInv fs (encF d fs tsh ish pidx cnt a).cnt ∧
-    ((encF d fs tsh ish pidx cnt a).cnt.headD (0, 0)).1 = (cnt.headD (0, 0)).1 + 1 ∧
-    ∀ F ∈ (encF d fs tsh ish pidx cnt a).fibs.flatten, cd_OsfFact F := by
+    cd_CntInv fs (encF hu dflt d fs tsh ish pidx cnt a).cnt ∧
+    ((encF hu dflt d fs tsh ish pidx cnt a).cnt.headD (0, 0)).1 = (cnt.headD (0, 0)).1 + 1 ∧
+    ∀ F ∈ (encF hu dflt d fs tsh ish pidx cnt a).fibs.flatten, cd_OsfFact F := by
   induction d with
   | zero =>
     intro fs tsh ish pidx cnt a hfs hI
     match fs, hfs with
     | [f], _ =>
     have key : ∀ (a : List (Int × Int)),
-        cd_CntInv [f] (encF 0 [f] tsh ish pidx cnt a).cnt ∧
-        ((encF 0 [f] tsh ish pidx cnt a).cnt.headD (0, 0)).1 = (cnt.headD (0, 0)).1 + 1 ∧
-        ∀ F ∈ (encF 0 [f] tsh ish pidx cnt a).fibs.flatten, cd_OsfFact F := by
+        cd_CntInv [f] (encF hu dflt 0 [f] tsh ish pidx cnt a).cnt ∧
+        ((encF hu dflt 0 [f] tsh ish pidx cnt a).cnt.headD (0, 0)).1 = (cnt.headD (0, 0)).1 + 1 ∧
+        ∀ F ∈ (encF hu dflt 0 [f] tsh ish pidx cnt a).fibs.flatten, cd_OsfFact F := by
       intro a
       refine ⟨trivial, rfl, ?_⟩
       intro F hF
@@ -1493,9 +1497,9 @@ theorem cd_encF_cnt (d : Nat) : ∀ (fs : List Fmt) (tsh : List Nat) (ish : Opti
     | f :: g :: fs'', hfs' =>
     have hfs'' : (g :: fs'').length = d + 1 := by simpa using hfs'
     obtain ⟨hI1, hI2⟩ := hI
-    obtain ⟨els, hels⟩ : ∃ els, els = elemsOf f (dimOf tsh ish) (emptyT d) (isEmpty (κ := Int) (0 : Int) (d + 1)) a := ⟨_, rfl⟩
+    obtain ⟨els, hels⟩ : ∃ els, els = elemsOf f (hu (d + 1)) (dimOf tsh ish) (tsh.headD 0) (emptyT d) (isEmpty (κ := Int) dflt (d + 1)) a := ⟨_, rfl⟩
     have hK := cd_encKids_inv (cd_CntInv (g :: fs'')) cd_OsfFact (d + 1)
-      (encF d (g :: fs'') tsh.tail (ishNext f ish) (cnt.headD (0, 0)).1)
+      (encF hu dflt d (g :: fs'') tsh.tail (ishNext f ish) (cnt.headD (0, 0)).1)
       (fun c x hc => ih (g :: fs'') tsh.tail (ishNext f ish) _ c x hfs'' hc)
       (els.map (·.2)) cnt.tail 0 hI2
     obtain ⟨hKa, hKb, hKc⟩ := hK
@@ -1525,7 +1529,7 @@ theorem cd_encKids_fibs_len {α : Type} (k : Nat) (enc1 : Cnt → α → Res)
   | cons x xs ih => simp only [encKids, length_zipApp, hlen cnt x, ih, Nat.min_self]
 
 theorem cd_encF_fibs_len (d : Nat) : ∀ (fs : List Fmt) (tsh : List Nat) (ish : Option (List Nat)) (pidx : Nat) (cnt : Cnt)
-    (a : Tree Int Int (d + 1)), (encF d fs tsh ish pidx cnt a).fibs.length = d + 1 := by
+    (a : Tree Int Int (d + 1)), (encF hu dflt d fs tsh ish pidx cnt a).fibs.length = d + 1 := by
   induction d with
   | zero => intro fs tsh ish pidx cnt a; simp [encF]
   | succ d ih =>
@@ -1556,7 +1560,7 @@ theorem cd_encKids_lenOK {α : Type} (k : Nat) (enc1 : Cnt → α → Res)
 
 theorem cd_encF_lenOK (d : Nat) : ∀ (fs : List Fmt) (tsh : List Nat) (ish : Option (List Nat)) (pidx : Nat) (cnt : Cnt)
     (a : Tree Int Int (d + 1)) (pre : List (List EFib)), pre.length = d + 1 → cd_lenOK cnt pre →
-    cd_lenOK (encF d fs tsh ish pidx cnt a).cnt (zipApp pre (encF d fs tsh ish pidx cnt a).fibs) := by
+    cd_lenOK (encF hu dflt d fs tsh ish pidx cnt a).cnt (zipApp pre (encF hu dflt d fs tsh ish pidx cnt a).fibs) := by
   induction d with
   | zero =>
     intro fs tsh ish pidx cnt a pre hpre hok
@@ -1589,11 +1593,11 @@ theorem cd_walk_kids {α : Type} (k : Nat) (enc1 : Cnt → α → Res) (cont1 : 
         cd_lenOK (enc1 cnt x).cnt (zipApp pre (enc1 cnt x).fibs))
     (hw : ∀ x, Q x → ∀ (cnt : Cnt) (pre post : List (List EFib)), pre.length = k → post.length = k →
         cd_lenOK cnt pre → I cnt →
-        walkM (zipApp pre (zipApp (enc1 cnt x).fibs post)) (cnt.headD (0, 0)).1 = cont1 x)
+        walkM dflt (zipApp pre (zipApp (enc1 cnt x).fibs post)) (cnt.headD (0, 0)).1 = cont1 x)
     (xs : List α) (hQ : ∀ x ∈ xs, Q x) (cnt : Cnt) (cum : Nat) (pre post : List (List EFib))
     (hpre : pre.length = k) (hpost : post.length = k) (hok : cd_lenOK cnt pre) (hIc : I cnt) :
     ∀ (j : Nat) (hj : j < xs.length),
-      walkM (zipApp pre (zipApp (encKids k enc1 xs cnt cum).fibs post)) ((cnt.headD (0, 0)).1 + j)
+      walkM dflt (zipApp pre (zipApp (encKids k enc1 xs cnt cum).fibs post)) ((cnt.headD (0, 0)).1 + j)
         = cont1 (xs[j]) := by
   induction xs generalizing cnt cum pre with
   | nil => intro j hj; simp at hj
@@ -1655,29 +1659,23 @@ theorem cd_getD_mid (p0 q0 : List EFib) (F : EFib) : (p0 ++ ([F] ++ q0)).getD p0
 
 theorem cd_walk_encF_zero (fs : List Fmt) (tsh : List Nat) (ish : Option (List Nat)) (pidx : Nat) (cnt : Cnt)
     (a : List (Int × Int)) (pre post : List (List EFib))
-    (hfs : fs.length = 1) (hwf : wfB (κ := Int) (ν := Int) 1 a = true) (hin : inEff 1 fs tsh ish a = true)
+    (hfs : fs.length = 1) (hwf : wfB (κ := Int) (ν := Int) 1 a = true) (hin : inShape 1 tsh a = true) (hdims : dimsOK fs tsh ish = true)
     (hok : cd_lenOK cnt pre) (hpre : pre.length = 1) (hpost : post.length = 1) :
-    walkM (zipApp pre (zipApp (encF 0 fs tsh ish pidx cnt a).fibs post)) (cnt.headD (0, 0)).1
-      = content (κ := Int) (ν := Int) (0 : Int) 1 a := by
+    walkM dflt (zipApp pre (zipApp (encF hu dflt 0 fs tsh ish pidx cnt a).fibs post)) (cnt.headD (0, 0)).1
+      = content (κ := Int) (ν := Int) dflt 1 a := by
   match fs, hfs with
   | [f], _ =>
   match pre, hpre with
   | [p0], _ =>
   match post, hpost with
   | [q0], _ =>
-  have hfacts := encF_fibs_facts_zero [f] tsh ish pidx cnt a rfl hwf hin
+  have hfacts := encF_fibs_facts_zero (hu := hu) (dflt := dflt) [f] tsh ish pidx cnt a rfl hwf hin hdims
   have hwf2 : (sortedB a && a.all (fun e => wfB (κ := Int) (ν := Int) 0 e.2)) = true := hwf
   rw [Bool.and_eq_true] at hwf2
   have hs : Sorted a := (sortedB_iff _).1 hwf2.1
-  have hin2 : (a.all fun e => decide (0 ≤ e.1) && decide (e.1 < ((dimOf tsh ish : Nat) : Int)) && true) = true := hin
-  rw [List.all_eq_true] at hin2
-  have hin' : ∀ e ∈ a, 0 ≤ e.1 ∧ e.1 < ((dimOf tsh ish : Nat) : Int) := by
-    intro e he
-    have := hin2 e he
-    simp only [Bool.and_eq_true, decide_eq_true_eq] at this
-    exact ⟨this.1.1, this.1.2⟩
-  obtain ⟨els, hels⟩ : ∃ els, els = elemsOf f (dimOf tsh ish) (0 : Int) (fun v => decide (v = 0)) a := ⟨_, rfl⟩
-  obtain ⟨F, hfibs, hnext, hv, hc⟩ : ∃ F : EFib, (encF 0 [f] tsh ish pidx cnt a).fibs = [[F]] ∧ F.next = none ∧
+  obtain ⟨htd, _, hin', _⟩ := cd_level_facts 0 f [] tsh ish a hin hdims
+  obtain ⟨els, hels⟩ : ∃ els, els = elemsOf f (hu 0) (dimOf tsh ish) (tsh.headD 0) dflt (fun v => decide (v = dflt)) a := ⟨_, rfl⟩
+  obtain ⟨F, hfibs, hnext, hv, hc⟩ : ∃ F : EFib, (encF hu dflt 0 [f] tsh ish pidx cnt a).fibs = [[F]] ∧ F.next = none ∧
       F.vals = els.map (·.2) ∧ F.ecoords = els.map (·.1) :=
     ⟨_, encF_zero_fibs f [] tsh ish pidx cnt a, rfl, by rw [hels], by rw [hels]⟩
   rw [hfibs] at hfacts ⊢
@@ -1690,22 +1688,22 @@ theorem cd_walk_encF_zero (fs : List Fmt) (tsh : List Nat) (ish : Option (List N
   have hz := cd_zipIdx_vals [] els
   simp only [List.length_nil, List.nil_append] at hz
   rw [hz, List.flatMap_map]
-  have hleaf : (els.flatMap fun e => if e.2 = 0 then [] else [([e.1], e.2)])
-      = els.flatMap (fun e => (content (κ := Int) (ν := Int) (0 : Int) 0 e.2).map (Codec.pre e.1)) := by
+  have hleaf : (els.flatMap fun e => if e.2 = dflt then [] else [([e.1], e.2)])
+      = els.flatMap (fun e => (content (κ := Int) (ν := Int) dflt 0 e.2).map (Codec.pre e.1)) := by
     congr 1
     funext e
-    by_cases h : e.2 = 0 <;> simp [content, h, Codec.pre]
+    by_cases h : e.2 = dflt <;> simp [content, h, Codec.pre]
   simp only []
   rw [hleaf, hels]
-  have hd : ∀ c : Int, (content (κ := Int) (ν := Int) (0 : Int) 0 (0 : Int)).map (Codec.pre c) = [] := by
+  have hd : ∀ c : Int, (content (κ := Int) (ν := Int) dflt 0 dflt).map (Codec.pre c) = [] := by
     intro c; simp [content]
-  have hE : ∀ (c : Int) (x : Int), (fun v : Int => decide (v = 0)) x = true →
-      (content (κ := Int) (ν := Int) (0 : Int) 0 x).map (Codec.pre c) = [] := by
+  have hE : ∀ (c : Int) (x : Int), (fun v : Int => decide (v = dflt)) x = true →
+      (content (κ := Int) (ν := Int) dflt 0 x).map (Codec.pre c) = [] := by
     intro c x hx
-    have : x = 0 := by simpa using hx
+    have : x = dflt := by simpa using hx
     subst this; exact hd c
-  rw [flatMap_elemsOf (fun c (v : Int) => (content (κ := Int) (ν := Int) (0 : Int) 0 v).map (Codec.pre c)) f (dimOf tsh ish)
-        (0 : Int) _ hd hE a hs hin']
+  rw [flatMap_elemsOf (fun c (v : Int) => (content (κ := Int) (ν := Int) dflt 0 v).map (Codec.pre c)) f _ (dimOf tsh ish)
+        _ dflt _ hd hE a hs htd hin']
   rfl
 
 
@@ -1713,16 +1711,17 @@ theorem cd_walk_encF_zero (fs : List Fmt) (tsh : List Nat) (ish : Option (List N
     point to, reads back the content of the sub-tree that was encoded there -/
 theorem cd_walk_encF (d : Nat) : ∀ (fs : List Fmt) (tsh : List Nat) (ish : Option (List Nat)) (pidx : Nat) (cnt : Cnt)
     (a : List (Int × Tree Int Int d)) (pr po : List (List EFib)),
-    fs.length = d + 1 → wfB (κ := Int) (ν := Int) (d + 1) a = true → inEff (d + 1) fs tsh ish a = true →
+    fs.length = d + 1 → wfB (κ := Int) (ν := Int) (d + 1) a = true → inShape (d + 1) tsh a = true →
+    dimsOK fs tsh ish = true →
     cd_CntInv fs cnt → cd_lenOK cnt pr → pr.length = d + 1 → po.length = d + 1 →
-    walkM (zipApp pr (zipApp (encF d fs tsh ish pidx cnt a).fibs po)) (cnt.headD (0, 0)).1
-      = content (κ := Int) (ν := Int) (0 : Int) (d + 1) a := by
+    walkM dflt (zipApp pr (zipApp (encF hu dflt d fs tsh ish pidx cnt a).fibs po)) (cnt.headD (0, 0)).1
+      = content (κ := Int) (ν := Int) dflt (d + 1) a := by
   induction d with
   | zero =>
-    intro fs tsh ish pidx cnt a pr po hfs hwf hin _ hok hpr hpo
-    exact cd_walk_encF_zero fs tsh ish pidx cnt a pr po hfs hwf hin hok hpr hpo
+    intro fs tsh ish pidx cnt a pr po hfs hwf hin hdims _ hok hpr hpo
+    exact cd_walk_encF_zero fs tsh ish pidx cnt a pr po hfs hwf hin hdims hok hpr hpo
   | succ d ih =>
-    intro fs tsh ish pidx cnt a pr po hfs hwf hin hinv hok hpr hpo
+    intro fs tsh ish pidx cnt a pr po hfs hwf hin hdims hinv hok hpr hpo
     match fs, hfs with
     | f :: g :: fs'', hfs' =>
     match pr, hpr with
@@ -1732,35 +1731,26 @@ theorem cd_walk_encF (d : Nat) : ∀ (fs : List Fmt) (tsh : List Nat) (ish : Opt
     have hfs'' : (g :: fs'').length = d + 1 := by simpa using hfs'
     have hpr'' : pr'.length = d + 1 := by simpa using hpr'
     have hpo'' : po'.length = d + 1 := by simpa using hpo'
-    have hfacts := encF_fibs_facts (d + 1) (f :: g :: fs'') tsh ish pidx cnt a hfs' hwf hin
-    have hosfs := (cd_encF_cnt (d + 1) (f :: g :: fs'') tsh ish pidx cnt a hfs' hinv).2.2
+    have hfacts := encF_fibs_facts (hu := hu) (dflt := dflt) (d + 1) (f :: g :: fs'') tsh ish pidx cnt a hfs' hwf hin hdims
+    have hosfs := (cd_encF_cnt (hu := hu) (dflt := dflt) (d + 1) (f :: g :: fs'') tsh ish pidx cnt a hfs' hinv).2.2
     have hwf2 : (sortedB a && a.all (fun e => wfB (κ := Int) (ν := Int) (d + 1) e.2)) = true := hwf
     rw [Bool.and_eq_true, List.all_eq_true] at hwf2
     have hs : Sorted a := (sortedB_iff _).1 hwf2.1
-    have hin2 : (a.all fun e => decide (0 ≤ e.1) && decide (e.1 < ((dimOf tsh ish : Nat) : Int)) &&
-        inEff (d + 1) (g :: fs'') tsh.tail (ishNext f ish) e.2) = true := hin
-    rw [List.all_eq_true] at hin2
-    have hin' : ∀ e ∈ a, 0 ≤ e.1 ∧ e.1 < ((dimOf tsh ish : Nat) : Int) := by
-      intro e he
-      have := hin2 e he
-      simp only [Bool.and_eq_true, decide_eq_true_eq] at this
-      exact ⟨this.1.1, this.1.2⟩
-    obtain ⟨els, hels⟩ : ∃ els, els = elemsOf f (dimOf tsh ish) (emptyT d) (isEmpty (κ := Int) (0 : Int) (d + 1)) a := ⟨_, rfl⟩
+    obtain ⟨htd, hdk, hin', hkin⟩ := cd_level_facts (d + 1) f (g :: fs'') tsh ish a hin hdims
+    obtain ⟨els, hels⟩ : ∃ els, els = elemsOf f (hu (d + 1)) (dimOf tsh ish) (tsh.headD 0) (emptyT d) (isEmpty (κ := Int) dflt (d + 1)) a := ⟨_, rfl⟩
     have hQ : ∀ x ∈ els.map (·.2), wfB (κ := Int) (ν := Int) (d + 1) x = true ∧
-        inEff (d + 1) (g :: fs'') tsh.tail (ishNext f ish) x = true := by
+        inShape (d + 1) tsh.tail x = true := by
       intro x hx
       obtain ⟨e, he, rfl⟩ := List.mem_map.1 hx
       rw [hels] at he
-      rcases elemsOf_payload _ _ _ _ _ e he with h | ⟨e', he', h⟩
+      rcases elemsOf_payload _ _ _ _ _ _ _ e he with h | ⟨e', he', h⟩
       · rw [h]; constructor <;> rfl
       · rw [← h]
         refine ⟨hwf2.2 e' he', ?_⟩
-        have := hin2 e' he'
-        simp only [Bool.and_eq_true] at this
-        exact this.2
-    obtain ⟨K, hK⟩ : ∃ K, K = encKids (d + 1) (encF d (g :: fs'') tsh.tail (ishNext f ish) (cnt.headD (0, 0)).1)
+        exact hkin e' he'
+    obtain ⟨K, hK⟩ : ∃ K, K = encKids (d + 1) (encF hu dflt d (g :: fs'') tsh.tail (ishNext f ish) (cnt.headD (0, 0)).1)
         (els.map (·.2)) cnt.tail 0 := ⟨_, rfl⟩
-    obtain ⟨F, hfibs, hnext, hc, hk0⟩ : ∃ F : EFib, (encF (d + 1) (f :: g :: fs'') tsh ish pidx cnt a).fibs = [F] :: K.fibs ∧
+    obtain ⟨F, hfibs, hnext, hc, hk0⟩ : ∃ F : EFib, (encF hu dflt (d + 1) (f :: g :: fs'') tsh ish pidx cnt a).fibs = [F] :: K.fibs ∧
         F.next = some g ∧ F.ecoords = els.map (·.1) ∧ F.kid0 = (cnt.tail.headD (0, 0)).1 :=
       ⟨_, by rw [hK, hels]; exact encF_succ_fibs d f (g :: fs'') tsh ish pidx cnt a, rfl, by rw [hels], rfl⟩
     rw [hfibs] at hfacts hosfs ⊢
@@ -1768,31 +1758,31 @@ theorem cd_walk_encF (d : Nat) : ∀ (fs : List Fmt) (tsh : List Nat) (ish : Opt
     have hse : F.scanElems = F.elemsSpec := scanElems_facts F hF (by
       intro hC hU
       exact hosfs F (by simp) (by rw [hC]; decide) (by rw [hU]; exact Option.some_ne_none _))
-    have hkids := cd_walk_kids (d + 1) (encF d (g :: fs'') tsh.tail (ishNext f ish) (cnt.headD (0, 0)).1)
-      (fun x => content (κ := Int) (ν := Int) (0 : Int) (d + 1) x)
-      (fun x => wfB (κ := Int) (ν := Int) (d + 1) x = true ∧ inEff (d + 1) (g :: fs'') tsh.tail (ishNext f ish) x = true)
+    have hkids := cd_walk_kids (d + 1) (encF hu dflt d (g :: fs'') tsh.tail (ishNext f ish) (cnt.headD (0, 0)).1)
+      (fun x => content (κ := Int) (ν := Int) dflt (d + 1) x)
+      (fun x => wfB (κ := Int) (ν := Int) (d + 1) x = true ∧ inShape (d + 1) tsh.tail x = true)
       (cd_CntInv (g :: fs''))
       (fun c x => cd_encF_fibs_len d _ _ _ _ c x)
       (fun c x hc => ⟨(cd_encF_cnt d (g :: fs'') tsh.tail (ishNext f ish) _ c x hfs'' hc).1,
                       (cd_encF_cnt d (g :: fs'') tsh.tail (ishNext f ish) _ c x hfs'' hc).2.1⟩)
       (fun c x p hp ho => cd_encF_lenOK d _ _ _ _ c x p hp ho)
-      (fun x hx c p q hp hq ho hc => ih (g :: fs'') tsh.tail (ishNext f ish) _ c x p q hfs'' hx.1 hx.2 hc ho hp hq)
+      (fun x hx c p q hp hq ho hc => ih (g :: fs'') tsh.tail (ishNext f ish) _ c x p q hfs'' hx.1 hx.2 hdk hc ho hp hq)
       (els.map (·.2)) hQ cnt.tail 0 pr' po' hpr'' hpo'' hok.2 hinv.2
     rw [← hK] at hkids
     simp only [zipApp_cons, walkM]
     rw [hok.1, cd_getD_mid, hse]
     simp only [EFib.elemsSpec, hnext, hc, hk0, List.flatMap_map]
-    have hcont : els.flatMap (fun e => (content (κ := Int) (ν := Int) (0 : Int) (d + 1) e.2).map (Codec.pre e.1))
-        = content (κ := Int) (ν := Int) (0 : Int) (d + 1 + 1) a := by
+    have hcont : els.flatMap (fun e => (content (κ := Int) (ν := Int) dflt (d + 1) e.2).map (Codec.pre e.1))
+        = content (κ := Int) (ν := Int) dflt (d + 1 + 1) a := by
       rw [hels]
-      show _ = a.flatMap (fun e => (content (κ := Int) (ν := Int) (0 : Int) (d + 1) e.2).map (Codec.pre e.1))
-      exact flatMap_elemsOf (fun c (x : Tree Int Int (d + 1)) => (content (κ := Int) (ν := Int) (0 : Int) (d + 1) x).map (Codec.pre c))
-        f (dimOf tsh ish) (emptyT d) _ (by intro c; rfl)
-        (by intro c x hx; rw [content_of_isEmpty (d + 1) x hx]; rfl) a hs hin'
+      show _ = a.flatMap (fun e => (content (κ := Int) (ν := Int) dflt (d + 1) e.2).map (Codec.pre e.1))
+      exact flatMap_elemsOf (fun c (x : Tree Int Int (d + 1)) => (content (κ := Int) (ν := Int) dflt (d + 1) x).map (Codec.pre c))
+        f _ (dimOf tsh ish) _ (emptyT d) _ (by intro c; rfl)
+        (by intro c x hx; rw [content_of_isEmpty (d + 1) x hx]; rfl) a hs htd hin'
     rw [← hcont]
     have := cd_zipIdx_flatMap els
-      (fun j => walkM (zipApp pr' (zipApp K.fibs po')) ((cnt.tail.headD (0, 0)).1 + j))
-      (fun x => content (κ := Int) (ν := Int) (0 : Int) (d + 1) x) 0
+      (fun j => walkM dflt (zipApp pr' (zipApp K.fibs po')) ((cnt.tail.headD (0, 0)).1 + j))
+      (fun x => content (κ := Int) (ν := Int) dflt (d + 1) x) 0
       (by
         intro j hj
         have := hkids j (by simpa using hj)
@@ -1811,6 +1801,317 @@ theorem cd_lenOK_replicate : ∀ (n m : Nat), cd_lenOK (List.replicate n (0, 0))
     · cases n with
       | zero => exact cd_lenOK_replicate 0 m
       | succ n => exact cd_lenOK_replicate n m
+
+
+/-! ### slices that start at a coordinate b -/
+
+/-- number of leading coordinates below `b` -/
+def cd_lb (l : List Int) (b : Int) : Nat := (l.takeWhile (fun c => decide (c < b))).length
+
+theorem cd_lb_cons (c : Int) (r : List Int) (b : Int) :
+    cd_lb (c :: r) b = if c < b then cd_lb r b + 1 else 0 := by
+  unfold cd_lb
+  by_cases h : c < b <;> simp [List.takeWhile_cons, h]
+
+theorem cd_inc_tail {c : Int} {r : List Int} (h : Inc (c :: r)) : Inc r := (List.pairwise_cons.1 h).2
+theorem cd_inc_head {c : Int} {r : List Int} (h : Inc (c :: r)) : ∀ x ∈ r, c < x := (List.pairwise_cons.1 h).1
+
+/-- on a strictly increasing list, keeping the coordinates `≥ b` drops exactly the first `cd_lb` ones -/
+theorem cd_filter_zipIdx (l : List Int) (hinc : Inc l) (b : Int) (k0 : Nat) :
+    (l.zipIdx k0).filter (fun e => decide (b ≤ e.1)) = (l.drop (cd_lb l b)).zipIdx (k0 + cd_lb l b) := by
+  induction l generalizing k0 with
+  | nil => simp [cd_lb]
+  | cons c r ih =>
+    rw [cd_lb_cons]
+    by_cases h : c < b
+    · rw [if_pos h, List.zipIdx_cons, List.filter_cons, if_neg (by simp; omega), ih (cd_inc_tail hinc) (k0 + 1)]
+      simp only [List.drop_succ_cons]
+      congr 1; omega
+    · rw [if_neg h]
+      simp only [List.drop_zero, Nat.add_zero]
+      rw [List.filter_eq_self]
+      intro e he
+      have hm := List.mem_zipIdx he
+      have hmem : e.1 ∈ c :: r := by
+        have := hm.2.2
+        rw [this]; exact List.getElem_mem _
+      rcases List.mem_cons.1 hmem with h1 | h1
+      · simp; omega
+      · have := cd_inc_head hinc _ h1; simp; omega
+
+theorem cd_drop_lb_ge (l : List Int) (hinc : Inc l) (b : Int) : ∀ x ∈ l.drop (cd_lb l b), b ≤ x := by
+  induction l with
+  | nil => intro x hx; simp at hx
+  | cons c r ih =>
+    intro x hx
+    rw [cd_lb_cons] at hx
+    by_cases h : c < b
+    · rw [if_pos h, List.drop_succ_cons] at hx; exact ih (cd_inc_tail hinc) x hx
+    · rw [if_neg h, List.drop_zero] at hx
+      rcases List.mem_cons.1 hx with h1 | h1
+      · omega
+      · have := cd_inc_head hinc _ h1; omega
+
+theorem cd_take_lb_lt (l : List Int) (b : Int) : ∀ x ∈ l.take (cd_lb l b), x < b := by
+  induction l with
+  | nil => intro x hx; simp at hx
+  | cons c r ih =>
+    intro x hx
+    rw [cd_lb_cons] at hx
+    by_cases h : c < b
+    · rw [if_pos h, List.take_succ_cons] at hx
+      rcases List.mem_cons.1 hx with h1 | h1
+      · omega
+      · exact ih x h1
+    · rw [if_neg h] at hx; simp at hx
+
+theorem cd_lb_le (l : List Int) (b : Int) : cd_lb l b ≤ l.length := by
+  induction l with
+  | nil => simp [cd_lb]
+  | cons c r ih =>
+    rw [cd_lb_cons]
+    by_cases h : c < b
+    · rw [if_pos h]; simp; omega
+    · rw [if_neg h]; simp
+
+theorem cd_posFrom_drop (lo m k : Nat) (hk : k ≤ m) : (posFrom lo m).drop k = posFrom (lo + k) (m - k) := by
+  induction k generalizing lo m with
+  | zero => simp
+  | succ k ih =>
+    cases m with
+    | zero => omega
+    | succ m =>
+      rw [posFrom_succ, List.drop_succ_cons, ih (lo + 1) m (by omega)]
+      congr 1 <;> omega
+
+theorem cd_lb_posFrom (lo m : Nat) (b : Nat) (hb1 : lo ≤ b) (hb2 : b ≤ lo + m) :
+    cd_lb (posFrom lo m) (b : Int) = b - lo := by
+  induction m generalizing lo with
+  | zero => simp [posFrom_zero, cd_lb]; omega
+  | succ m ih =>
+    rw [posFrom_succ, cd_lb_cons]
+    by_cases h : (lo : Int) < (b : Int)
+    · rw [if_pos h, ih (lo + 1) (by omega) (by omega)]; omega
+    · rw [if_neg h]; omega
+
+
+theorem cd_scanBase_U (F : EFib) (hF : FibFacts F) (hf : F.fmt = .U) (b : Nat) (hb : b ≤ F.shape) :
+    F.scanBase b = cd_specFromB F.payBase (F.ecoords.drop (cd_lb F.ecoords b)) (cd_lb F.ecoords b) := by
+  have hsh : F.n = F.shape := by rw [hF.n_eq, hF.dense hf]; simp [irange]
+  have hnp : F.npay = F.shape := by rw [hF.npay_eq, hf]; exact hsh
+  have hcu : ¬ (F.fmt = .C ∧ F.next = some .U) := by rw [hf]; intro h; cases h.1
+  rw [cd_payBase_zero F hcu, cd_specFromB_zero, hF.dense hf, irange_eq,
+    cd_lb_posFrom 0 F.shape b (Nat.zero_le _) (by omega), cd_posFrom_drop 0 F.shape (b - 0) (by omega)]
+  simp only [EFib.scanBase, EFib.coordToHandle, hf, Nat.sub_zero, Nat.zero_add]
+  by_cases hlt : b < F.shape
+  · have : ¬ (((b : Nat) : Int) < 0 ∨ ((b : Nat) : Int) ≥ (F.shape : Int)) := by omega
+    rw [if_neg this]
+    simp only [Int.toNat_natCast]
+    exact scanFrom_U F hf hnp (F.shape - b) b (by omega)
+  · have hbe : b = F.shape := by omega
+    have : (((b : Nat) : Int) < 0 ∨ ((b : Nat) : Int) ≥ (F.shape : Int)) := by omega
+    rw [if_pos this, hbe, Nat.sub_self, posFrom_zero]
+    rfl
+
+theorem cd_scanBase_C (F : EFib) (hF : FibFacts F) (hf : F.fmt = .C) (b : Nat) :
+    F.scanBase b = cd_specFromB F.payBase (F.ecoords.drop (cd_lb F.ecoords b)) (cd_lb F.ecoords b) := by
+  have hc : F.coords = F.ecoords := by rw [hF.coords_eq, hf]; rfl
+  simp only [EFib.scanBase, EFib.coordToHandle, hf]
+  rw [hc, c2hC_lowerHandle F.ecoords hF.inc b]
+  show (match (if cd_lb F.ecoords b < F.ecoords.length then some (cd_lb F.ecoords b) else none) with
+        | some h => scanFrom F F.ecoords.length h
+        | none => []) = _
+  by_cases hlt : cd_lb F.ecoords b < F.ecoords.length
+  · rw [if_pos hlt]
+    simp only
+    by_cases hcu : F.fmt = .C ∧ F.next = some .U
+    · rw [cd_payBase_CU F hcu.1 hcu.2]
+      have := scanFrom_CU F hf hcu.2 (F.coords.length - cd_lb F.ecoords b) (cd_lb F.ecoords b) (by rw [hc]; omega)
+      rw [hc] at this; exact this
+    · rw [cd_payBase_zero F hcu, cd_specFromB_zero]
+      have := scanFrom_C F hf (fun h => hcu ⟨hf, h⟩) (F.coords.length - cd_lb F.ecoords b) (cd_lb F.ecoords b)
+        (by rw [hc]; omega)
+      rw [hc] at this; exact this
+  · rw [if_neg hlt]
+    have : F.ecoords.drop (cd_lb F.ecoords b) = [] := List.drop_eq_nil_of_le (by omega)
+    rw [this]; rfl
+
+
+theorem cd_posFrom_take (lo m k : Nat) (hk : k ≤ m) : (posFrom lo m).take k = posFrom lo k := by
+  induction k generalizing lo m with
+  | zero => simp [posFrom_zero]
+  | succ k ih =>
+    cases m with
+    | zero => omega
+    | succ m => rw [posFrom_succ, posFrom_succ, List.take_succ_cons, ih (lo + 1) m (by omega)]
+
+theorem cd_contains_drop (l : List Int) (hinc : Inc l) (b x : Int) (hx : b ≤ x) :
+    l.contains x = (l.drop (cd_lb l b)).contains x := by
+  have hl : l = l.take (cd_lb l b) ++ l.drop (cd_lb l b) := (List.take_append_drop _ _).symm
+  have hnot : (l.take (cd_lb l b)).contains x = false := by
+    rw [Bool.eq_false_iff]; intro h
+    have := cd_take_lb_lt l b x (List.contains_iff_mem.1 h); omega
+  conv => lhs; rw [hl]
+  rw [List.contains_eq_mem, List.contains_eq_mem] at *
+  simp only [List.mem_append, decide_eq_decide]
+  constructor
+  · rintro (h | h)
+    · have := cd_take_lb_lt l b x h; omega
+    · exact h
+  · exact Or.inr
+
+theorem cd_contains_take (l : List Int) (hinc : Inc l) (b x : Int) (hx : x < b) :
+    l.contains x = (l.take (cd_lb l b)).contains x := by
+  have hl : l = l.take (cd_lb l b) ++ l.drop (cd_lb l b) := (List.take_append_drop _ _).symm
+  conv => lhs; rw [hl]
+  rw [List.contains_eq_mem, List.contains_eq_mem]
+  simp only [List.mem_append, decide_eq_decide]
+  constructor
+  · rintro (h | h)
+    · exact h
+    · have := cd_drop_lb_ge l hinc b x h; omega
+  · exact Or.inl
+
+theorem cd_foldl_bits (l : List Int) (xs : List Int) (acc : Int) :
+    (xs.map (fun i => if l.contains i then (1 : Int) else 0)).foldl (· + ·) acc
+      = acc + ((xs.filter (fun i => l.contains i)).length : Nat) := by
+  induction xs generalizing acc with
+  | nil => simp
+  | cons x xs ih =>
+    simp only [List.map_cons, List.foldl_cons, List.filter_cons]
+    rw [ih]
+    by_cases h : l.contains x = true
+    · rw [if_pos h, if_pos h]; simp only [List.length_cons]; omega
+    · rw [if_neg h, if_neg h]; omega
+
+theorem cd_inc_sublists (l : List Int) (hinc : Inc l) (k : Nat) : Inc (l.take k) ∧ Inc (l.drop k) :=
+  ⟨hinc.sublist (List.take_sublist _ _), hinc.sublist (List.drop_sublist _ _)⟩
+
+theorem cd_scanBase_B (F : EFib) (hF : FibFacts F) (hf : F.fmt = .B) (b : Nat) (hb : b ≤ F.shape) :
+    F.scanBase b = cd_specFromB F.payBase (F.ecoords.drop (cd_lb F.ecoords b)) (cd_lb F.ecoords b) := by
+  have hc : F.coords = maskOf F.shape F.ecoords := by rw [hF.coords_eq, hf]; rfl
+  have hcu : ¬ (F.fmt = .C ∧ F.next = some .U) := by rw [hf]; intro h; cases h.1
+  have hnp : F.npay = F.ecoords.length := by rw [hF.npay_eq, hf, hF.n_eq]
+  have hincs := cd_inc_sublists F.ecoords hF.inc (cd_lb F.ecoords b)
+  -- the mask bits from position b on, and the set positions among them
+  have hdrop : F.coords.drop b = (posFrom b (F.shape - b)).map (fun i => if F.ecoords.contains i then (1 : Int) else 0) := by
+    rw [hc, maskOf, irange_eq, ← List.map_drop, cd_posFrom_drop 0 F.shape b hb, Nat.zero_add]
+  have htake : F.coords.take b = (posFrom 0 b).map (fun i => if F.ecoords.contains i then (1 : Int) else 0) := by
+    rw [hc, maskOf, irange_eq, ← List.map_take, cd_posFrom_take 0 F.shape b hb]
+  have hset : maskCoordsFrom b (F.coords.drop b) = F.ecoords.drop (cd_lb F.ecoords b) := by
+    rw [hdrop]
+    show ((((posFrom b (F.shape - b)).map (fun i => if F.ecoords.contains i then (1 : Int) else 0)).zipIdx b).filter
+        (fun e => !decide (e.1 = 0))).map (fun e => (e.2 : Int)) = _
+    rw [maskCoords_mask_aux (F.shape - b) b F.ecoords]
+    have hcongr : (posFrom b (F.shape - b)).filter (fun i => F.ecoords.contains i)
+        = (posFrom b (F.shape - b)).filter (fun i => (F.ecoords.drop (cd_lb F.ecoords b)).contains i) := by
+      apply List.filter_congr
+      intro x hx
+      exact cd_contains_drop F.ecoords hF.inc b x (mem_posFrom.1 hx).1
+    rw [hcongr]
+    apply filter_posFrom_contains (F.shape - b) b _ hincs.2
+    intro c hcm
+    have h1 := cd_drop_lb_ge F.ecoords hF.inc b c hcm
+    have h2 := (hF.inrange c (List.mem_of_mem_drop hcm)).2
+    constructor <;> omega
+  have hph : ((F.coords.take b).foldl (· + ·) 0).toNat = cd_lb F.ecoords b := by
+    rw [htake, cd_foldl_bits]
+    have hcongr : (posFrom 0 b).filter (fun i => F.ecoords.contains i)
+        = (posFrom 0 b).filter (fun i => (F.ecoords.take (cd_lb F.ecoords b)).contains i) := by
+      apply List.filter_congr
+      intro x hx
+      exact cd_contains_take F.ecoords hF.inc b x (by have := (mem_posFrom.1 hx).2; omega)
+    rw [hcongr, filter_posFrom_contains b 0 _ hincs.1]
+    · simp [List.length_take, Nat.min_eq_left (cd_lb_le _ _)]
+    · intro c hcm
+      have h1 := cd_take_lb_lt F.ecoords b c hcm
+      have h2 := (hF.inrange c (List.mem_of_mem_take hcm)).1
+      constructor <;> omega
+  rw [cd_payBase_zero F hcu, cd_specFromB_zero]
+  simp only [EFib.scanBase, hf]
+  rw [hph, ← hset]
+  apply scanBits_spec F hf (F.coords.drop b)
+    (by intro x hx; exact maskOf_01 F.shape F.ecoords x (by rw [← hc]; exact List.mem_of_mem_drop hx))
+  rw [hset, hnp, List.length_drop]
+  have := cd_lb_le F.ecoords b
+  omega
+
+
+theorem cd_scanBase_raw (F : EFib) (hF : FibFacts F) (b : Nat) (hb : b ≤ F.shape) :
+    F.scanBase b = cd_specFromB F.payBase (F.ecoords.drop (cd_lb F.ecoords b)) (cd_lb F.ecoords b) := by
+  cases hf : F.fmt with
+  | U => exact cd_scanBase_U F hF hf b hb
+  | C => exact cd_scanBase_C F hF hf b
+  | B => exact cd_scanBase_B F hF hf b hb
+
+/-- what payload handle `payBase + k` designates: the k-th leaf value resp. the k-th child -/
+theorem cd_resolve_spec (F : EFib) (hF : FibFacts F)
+    (hosf : F.fmt = .C → F.next = some .U → F.osf = F.kid0) (k : Nat) (hk : k < F.n) :
+    F.resolve (some (F.payBase + k)) =
+      (match F.next with
+       | none => some (F.vals.getD k 0)
+       | some _ => some ((F.kid0 + k : Nat) : Int)) := by
+  simp only [EFib.resolve]
+  by_cases hcu : F.fmt = .C ∧ F.next = some .U
+  · rw [cd_payBase_CU F hcu.1 hcu.2, hcu.2]
+    simp [hcu.1, hosf hcu.1 hcu.2]
+  · rw [cd_payBase_zero F hcu, Nat.zero_add]
+    cases hnx : F.next with
+    | none =>
+      have hnp : F.npay = F.n := by
+        rw [hF.npay_eq, hnx]; cases F.fmt <;> rfl
+      simp only [hnp]
+      rw [if_neg (by omega)]
+    | some g =>
+      have hnp : F.npay = F.n := by
+        rw [hF.npay_eq, hnx]
+        cases hf : F.fmt with
+        | U => rfl
+        | B => rfl
+        | C =>
+          cases g with
+          | U => exact absurd ⟨hf, hnx⟩ hcu
+          | C => rfl
+          | B => rfl
+      simp only [hnp]
+      have hne : ¬ (F.fmt = .C ∧ g = .U) := by
+        intro h; exact hcu ⟨h.1, by rw [hnx, h.2]⟩
+      rw [if_neg hne, if_pos hk]
+
+/-- the k-th element of the fiber as the layout defines it -/
+def cd_G (F : EFib) (e : Int × Nat) : Option Int × Option Int :=
+  (some e.1, match F.next with
+             | none => some (F.vals.getD e.2 0)
+             | some _ => some ((F.kid0 + e.2 : Nat) : Int))
+
+theorem cd_elemsSpec_eq (F : EFib) : F.elemsSpec = F.ecoords.zipIdx.map (cd_G F) := rfl
+
+theorem cd_elemsSpecFrom_eq (F : EFib) (b : Nat) :
+    F.elemsSpecFrom b = (F.ecoords.zipIdx.filter (fun e => decide ((b : Int) ≤ e.1))).map (cd_G F) := by
+  unfold EFib.elemsSpecFrom
+  rw [cd_elemsSpec_eq, List.filter_map]
+  rfl
+
+/-- a slice set up at coordinate `b` (inside the extent) delivers exactly the fiber's elements
+    at coordinates `≥ b`, in order, each with the payload it has in a full scan -/
+theorem cd_scanBase_elems (F : EFib) (hF : FibFacts F)
+    (hosf : F.fmt = .C → F.next = some .U → F.osf = F.kid0) (b : Nat) (hb : b ≤ F.shape) :
+    (F.scanBase b).map (fun e => (e.1, F.resolve e.2)) = F.elemsSpecFrom b := by
+  rw [cd_scanBase_raw F hF b hb, cd_elemsSpecFrom_eq]
+  have := cd_filter_zipIdx F.ecoords hF.inc b 0
+  rw [Nat.zero_add] at this
+  rw [this]
+  simp only [cd_specFromB, List.map_map]
+  apply List.map_congr_left
+  intro e he
+  have hk : e.2 < F.n := by
+    have := List.mem_zipIdx he
+    rw [hF.n_eq]
+    have hl := List.length_drop (i := cd_lb F.ecoords b) (l := F.ecoords)
+    have := cd_lb_le F.ecoords b
+    omega
+  simp only [Function.comp, cd_G]
+  rw [cd_resolve_spec F hF hosf e.2 hk]
 
 
 end Codec
